@@ -12,1296 +12,1172 @@ Definition show_fres (r : fres) : string :=
   end.
 Definition check (rs : list rune) : string := digest (show_fres (format_res rs)).
 Definition full (rs : list rune) : string := show_fres (format_res rs).
-Eval vm_compute in ("<<<M1076>>>" ++ check (runes_of_ascii "  packet a1 {} options{len= ""a\""b"" ;
-} options
-{Header =
-    '\x00' // " ++ [128512]%N ++ runes_of_ascii " emoji
-; BodyLength=
-uint8 ; } packet Foo {
-    @lengthOf(
-// " ++ [27880; 37322]%N ++ runes_of_ascii "
-// trailing space 
-a1) packetx{ a1 @calculatedFrom(
-""\n"" ) , asx{	repeat char[ 3
-]
-roots`` , repeat string_	{
-string a1 @calculatedFrom(""// no comment"" ) `// not a comment`, uint8 charz, string_ ,}	, string	_x `line1
-line2` ,
-    repeat char[] float `{ , }`  ,
-    }
-    , MetaDataX , },Packet
-, char[
-    0123456789] string_
-    `say ""hi""` , @lengthOf( stringy
-    ) @tag( 65535 ) @leftPad // a // b
-( '0'
-) match
-    chars as
-u8x { // packet A { u8 x, }
-0123456789 :Packet,
-0 : u , [ """ ++ [128512]%N ++ runes_of_ascii """	]
-: matchKey
-    // @lengthOf(
-    , 0123456789 : // trailing space 
-len , //	t
-""a\\""
-    : As,0123456789  :
-x_y_z , },match
-    // packet A { u8 x, }
-    msg_type
-    as metadata {	0123456789
-    :
-chars //
-, // " ++ [27880; 37322]%N ++ runes_of_ascii "
-65535  :	calculatedFrom
-,// a // b
-""packet"" : charz ,// trailing space 
-}
-, @tag( 10) repeat i8i8 falsey	`{ , }` ,
-@tag(
-    3) match repeatCount as zchar{ 10 : calculatedFrom // c
-} , match//x
-Logon as
-/// triple
-// trailing space 
-falsey
-    { ""a\""b"" : packetx,  } ,@lengthOf(
-zchar )repeat zchar[ 00 // `tick` ""quote"" 'q'
-]body	,
-    repeat char[ 00
-//
-// trailing space 
-]
-len
-    , } packet
-    uint8x
-{ @lengthOf( float ) @calculatedFrom( ""\n""
-)
-match zchar as BodyLength
-    { 10 :Pad
-    //x
-    ,} ,
-    @lengthOf( charz)	f32 stringy
-`line1
-line2` , crc { u64 BodyLength@lengthOf( calculatedFrom )
-,char[ // @lengthOf(
-00 ] msg_type
-    /// triple
-    @lengthOf( Logon ) , /// triple
-} ,
-    i16 MetaDataX`
-`
-,
-@calculatedFrom( ""x y"" ) match roots as leftPad
-{ ""\n"" : rootA , [ ""x y""
-, 0123456789 , 0
-,65535,
-    ""x y""  ,
-    ""abc"" ]:pack  ,  0 : float ,
-    } , @lengthOf(lengthOf
-) @lengthOf( f32a
-) i32
-// packet A { u8 x, }
-// trailing space 
-matchKey @lengthOf(len
-)
-, u8 Z9_ // " ++ [128512]%N ++ runes_of_ascii " emoji
-@calculatedFrom( ""packet""
-    )`it's` ,
-@lengthOf( float
-) repeat i8i8 `crlf
-line` , @tag( 0123456789 ) repeat
-i8
-    matchKey `two words`, @leftPad
-(
-' '// a // b
-) string metadata @calculatedFrom(  ""it's"" ) , }
-
-")).
-Eval vm_compute in ("<<<M4336>>>" ++ check (runes_of_ascii "  // @lengthOf(
-MetaData
-
-    zchar {
-
-    string
-o	`crlf
-line`
-, 
-char[] pack  // c
-
-  `crlf
-line`
-
-    ,
-char[]
-// trailing space 
-  	Foo,
-
-    }options  {
-stringy
-
-= ""`tick`""} 
-packet
-
-leftPad
-    {
-
-packetx
-
-    @lengthOf(
-    roots
-
-) ,  @lengthOf( int 
-      // a // b
-	// " ++ [27880; 37322]%N ++ runes_of_ascii "
-  ) @calculatedFrom( ""a\""b""
-) @calculatedFrom(	""" ++ [28040; 24687]%N ++ runes_of_ascii """
-
-    )
-	int32
-    MetaDataX`" ++ [233]%N ++ runes_of_ascii "` 	 // " ++ [27880; 37322]%N ++ runes_of_ascii "
-	,
-
-u8
-int// `tick` ""quote"" 'q'
-	,
-@lengthOf( 
-options1
-
-    )  repeat u8 
-BodyLength 	 // `tick` ""quote"" 'q'
-,  @tag(
-
-1 )
-
-Logon,
-	repeat
-int32
-    u8x	`say ""hi""`	,
-	match int
-as
-
-charz
-{ 
-""abc"" 
-: roots }
-,string_
-{zchar @lengthOf(
-calculatedFrom
-	)``
-    ,}
-
-, }	root  packet 
-lengthOf 
-{
-@tag(
-    4294967296)
-
-    A 	 // packet A { u8 x, }
-	@lengthOf( i64_	) 
-`doc`
-,
-body @lengthOf(	lengthOf
-    ) `it's` 
-	// packet A { u8 x, }
-
-, 
-zchar[
-
-    10 ]	// " ++ [27880; 37322]%N ++ runes_of_ascii "
-      i8i8 , @calculatedFrom( """ ++ [233]%N ++ runes_of_ascii "t" ++ [233]%N ++ runes_of_ascii """
-	)
-	i64
-int`u8 x,` ,  repeat  trueish{  string	options1
-,	zchar[ 
-0123456789]_x `tab	here`,
-
-    Pad
-{
-	repeat
-
-string repeatCount
-
-    ,repeat string 
-_x	, Packet @lengthOf(
-roots ) `
-`
-, string	crc
-
+Eval vm_compute in ("<<<M822>>>" ++ check (runes_of_ascii "packet u { @tag( 007 )
     @calculatedFrom(
-    ""abc""
-) ,
-
-} ,
-
-match i8i8  as string_
-
-{  // c
-  [	""it's"" ] :options1
-
-    ,
-
-//
-		// @lengthOf(
-  	""a	b""
-    :
-    string_
-	,
-    [
-	""a	b"" ,
-	00
-    ]  //	t
-:	// `tick` ""quote"" 'q'
-  metadata
-	,  0	: o
-""\" ++ [233]%N ++ runes_of_ascii """:
-Pad // packet A { u8 x, }
-	  ,
-	}
-	,
-    }
-,char[
-    7
-	] 
-i8i8
-`tab	here`
-
-    ,
-    roots
-    {repeat uint8
-	_x	`tab	here`
-, }
-	, repeat int64
-
-f32a ,
-	match
-
-asx	as  calculatedFrom {
-
-65535 
-:
-
-asx 
-
-    // trailing space 
-  //x
-
-,
-[
-1 
-]
-	: uint8x
-,
-    42
-    :x  [  ""x y""
-	,  ""1""
-
-,
-    ""`tick`""
-    ,
-""1""
-
-, ""1""
-	,	""a	b""  ]
-
-: MetaDataX } , }	MetaData
-    chars{
-	}
-
-")).
-Eval vm_compute in ("<<<M226>>>" ++ check (runes_of_ascii "root packet Foo { @tag(00	)
-char[] _x
-@calculatedFrom(
-    // trailing space 
-    ""{,}"" ) ,@rightPad	( '0' )f32 Pad@calculatedFrom( ""abc""
-// @lengthOf(
-// " ++ [27880; 37322]%N ++ runes_of_ascii "
-)
-, @rightPad
-    ( '0' )  repeat falsey string_
-// @lengthOf(
-// " ++ [128512]%N ++ runes_of_ascii " emoji
-`{ , }` , @calculatedFrom( ""abc"" )//
-@tag(
-00 ) rootA@calculatedFrom( ""it's"" ), BodyLength/// triple
-lengthOf `doc` , Z9_{ f64 Z9_ ,T
-charz
-    `" ++ [233]%N ++ runes_of_ascii "`
-, x {
-tag crc,
-    repeat uint32	chars
-, zchar[ 0123456789 ]roots ,
-int64 charz@calculatedFrom(
-    ""it's"" ) `" ++ [28040; 24687; 31867; 22411]%N ++ runes_of_ascii "` ,} , i8 msg_type//	t
-@lengthOf( options1 )
-,
-    } ,
-    repeat MetaDataX { matchKey i64_ , string tag @lengthOf(
-    msg_type )// trailing space 
-, tag { string f32a
-,// " ++ [27880; 37322]%N ++ runes_of_ascii "
-match crc as u128
-{	4294967296  :
-    Z9_ ,""" ++ [28040; 24687]%N ++ runes_of_ascii """ : a1 ,//	t
-65535 : T , [ ""CRC32"" ,
-1
-, ""packet"" ]
-: x_y_z , } ,	string matchKey @calculatedFrom(""" ++ [28040; 24687]%N ++ runes_of_ascii """ ) `two words`	, } , char[ 65535 // trailing space 
-] Header@calculatedFrom( ""CRC32"" ) `// not a comment` ,
-} ,match
-Foo as metadata	{
-[""1"" ,
-//	t
-// " ++ [27880; 37322]%N ++ runes_of_ascii "
-""""
-] :  metadata	[ 0123456789  ] : tag ,
-""1"" :  T
-//	t
-// a // b
-4294967296
-    :x , // packet A { u8 x, }
-0 :
-trueish ,	""{,}"" :  metadata , // a // b
-}, zchar[255
-]
-    u128
-@lengthOf(float ) ,// trailing space 
-} packet a1
-{ @rightPad ( ' ' ) @tag( 7//x
-)@tag( 10 )
-//	t
-// trailing space 
-Header { Packet @lengthOf( lengthOf ) , string
-options1
-,
-match zchar as pack
-{ """" :o , """ ++ [28040; 24687]%N ++ runes_of_ascii """ :	leftPad  , """ ++ [28040; 24687]%N ++ runes_of_ascii """ :
-crc } ,	Z9_
-//x
-// trailing space 
-{
-    //
-    len//	t
-int ,  } ,
-    },}
-")).
-Eval vm_compute in ("<<<M4162>>>" ++ check (runes_of_ascii "  packet string_// packet A { u8 x, }
-
-	{ @lengthOf(x_y_z  // " ++ [128512]%N ++ runes_of_ascii " emoji
-) 
-u8x// @lengthOf(
-@lengthOf(MetaDataX ),  match
-u128
-as
-    calculatedFrom	{	""// no comment"":Foo
-	}
-
-    , @tag( 255
-) f32a	body ,f64	i64_
-
-`two words`
-    ,@tag( 7  )
-
-@leftPad
-
-(
-	) 
-	    // c
-    	// a // b
-@calculatedFrom(
-
-    """ ++ [233]%N ++ runes_of_ascii "t" ++ [233]%N ++ runes_of_ascii """ ) uint16	u
-    @lengthOf( i64_
-    )
-
-    `tab	here` ,
-@lengthOf(
-	options1 )roots
-{
-
-string
-x
-    @calculatedFrom( ""1"" )	,  len
-    `say ""hi""`
-
-    ,
-
-    rootA  @lengthOf(crc	) 
-      //	t
-, i64_@lengthOf(  Logon)  
-  // trailing space 
-`doc`
-
-    ,
-	} 
-//
-//
-	,
-Packet	@calculatedFrom(
-
-    ""abc""
-
-)  , 
-@tag(
-	7
-)@lengthOf(
-    crc ) match crc	as Z9_
-
-    {
-42
-: u128 10 :Packet
-
-,""packet""
-	:repeatCount
-
-[
-
-    """ ++ [128512]%N ++ runes_of_ascii """
-    ,
-""abc""	// " ++ [27880; 37322]%N ++ runes_of_ascii "
-]
-
-:
-u8x
-
-    [""a\""b""  /// triple
-
-,
-
-42
-	]
-
-:	rootA
-
-,  [
-007  ,
-
-""1"" , 
-    //	t
-		""" ++ [233]%N ++ runes_of_ascii "t" ++ [233]%N ++ runes_of_ascii """
-	]
-:
-chars 
-, 
-}  ,}  root
-packet
-	u{ @calculatedFrom(
-""CRC32"")	_x@calculatedFrom(""\" ++ [233]%N ++ runes_of_ascii """	)
-
-    , calculatedFrom lengthOf
-
-    ,@rightPad(
-	)
-
-    uint32
-
-zchar
-@calculatedFrom(
-    """ ++ [233]%N ++ runes_of_ascii "t" ++ [233]%N ++ runes_of_ascii """
-    )
-,
-	A
-
-,
-
-}
-root
-
-    packet int  {  
-  // `tick` ""quote"" 'q'
-	// `tick` ""quote"" 'q'
-  char stringy
-
-    `a\`, // trailing space 
-} options
-
-    { Z9_	//	t
-  =	""abc""
-;
-crc	= 
-' '
-	;  matchKey  =
-00  ;
-	}")).
-Eval vm_compute in ("<<<M3723>>>" ++ check (runes_of_ascii "
-MetaData 
-        // " ++ [128512]%N ++ runes_of_ascii " emoji
-// trailing space 
-    o{	char[
-    255 ]	// @lengthOf(
-    BodyLength,
-} 
-packet	crc	{
-
-@tag( 7
-)
-
-calculatedFrom
-
-    @lengthOf(Header)
-
-,
-	len
-    {	float
-{ i32
-    T
-    ,
-    stringy
-string_
-    // c
-
-,
-char[// " ++ [27880; 37322]%N ++ runes_of_ascii "
-  65535
-
-]Packet @lengthOf( a1
-
-)  `` 
-, falsey 
-{ u16 
-Logon `{ , }` , } ,
-}
-
-    ,
-    repeat 	 /// triple
-  falsey
-,repeat	u8  Logon , 
-}  ,
-zchar[  65535 ]
-
-    lengthOf
-
-    @lengthOf( asx
-	) `line1
-line2`
-	, 
-@rightPad
-(
-'0' ) int16
-
-f32a,	@rightPad (// packet A { u8 x, }
-  '\x00')
-
-char[]	len 
-    // packet A { u8 x, }
-    `" ++ [28040; 24687; 31867; 22411]%N ++ runes_of_ascii "`
-
-    ,match
-
-string_
-    as
-    string_
-/// triple
-
-{ [
-""a\\"" ,
-	10
-,	007  ,//	t
-	0123456789]	: As
-    ,
-
-    [ ""`tick`""
-	] : //
-  	metadata,
-""\n"" :	falsey
-
-    , // `tick` ""quote"" 'q'
-    [ 3
-    ,// " ++ [27880; 37322]%N ++ runes_of_ascii "
-
-""" ++ [233]%N ++ runes_of_ascii "t" ++ [233]%N ++ runes_of_ascii """ ,//	t
-""CRC32""	]	:
-    lengthOf
-, 
-00
-
-    : x_y_z ,	}
-	, packetx
-{  repeat
-a1 `it's` 	 // packet A { u8 x, }
-
-,
-	stringy
-
-    `{ , }`  , match  T
-as
-
-    MetaDataX 	 // @lengthOf(
-    	{ ""CRC32""	: lengthOf
-}	,  } ,
-	} MetaData tag 
-{//x
-
-}	packet
-
-    Z9_ 
-{
-i16
-rootA
-
-// packet A { u8 x, }
-
-// @lengthOf(
-	`
-`// " ++ [27880; 37322]%N ++ runes_of_ascii "
-  , //	t
-
-  }
-
-")).
-Eval vm_compute in ("<<<M1119>>>" ++ check (runes_of_ascii "packet msg_type {  char[ 10
-    ]Logon  @lengthOf(	u8x ) `` , repeat
-    i16
-    Logon `two words`
-,} MetaData matchKey  { zchar[ 0
-] tag`" ++ [28040; 24687; 31867; 22411]%N ++ runes_of_ascii "` , }
-    packet leftPad { repeat// trailing space 
-roots
-    // trailing space 
-    { match zchar	as
-T { ""{,}""
-//x
-// " ++ [27880; 37322]%N ++ runes_of_ascii "
-:
-    Z9_ , ""\n"" : tag
-""a\\"": lengthOf ,} , }
-, }root  packet a1
-{
-@tag(	3 )
-    u128`it's`
-    ,MetaDataX
-{match // `tick` ""quote"" 'q'
-metadata
-    as o  { ""`tick`""
-:roots 10 : u, ""\" ++ [233]%N ++ runes_of_ascii """ :	float , } , char[ 3 ]
-    /// triple
-    pack
-@calculatedFrom( ""`tick`""  ) , match
-pack  as asx {7
-    : rootA [
-42 , 1	,
-    ""\" ++ [233]%N ++ runes_of_ascii """ , ""a	b""  , """ ++ [28040; 24687]%N ++ runes_of_ascii """  ,00 ,10, ""a\\"" ]	:	x_y_z ,/// triple
-42 :f32a // " ++ [128512]%N ++ runes_of_ascii " emoji
-42:u // c
-, """ ++ [128512]%N ++ runes_of_ascii """ // @lengthOf(
-: A
-1 : Z9_// `tick` ""quote"" 'q'
-},} ,i64 roots , zchar[ 65535
-    ] stringy,crc @calculatedFrom( ""a\\"") , zchar[ 007]
-stringy
-    , /// triple
-string
-    Z9_ ,  @calculatedFrom( // c
-""x y"" )@lengthOf(calculatedFrom)@calculatedFrom( ""abc"") u128`it's`
-,//
-@tag(
-    // a // b
-    1 ) zchar[ 0123456789	] string_
-    , } options {//x
-metadata= '\x00' u = false
-T
-=	10 ;
-_x= ""abc"" asx = false ; } // packet A { u8 x, }")).
-Eval vm_compute in ("<<<M1316>>>" ++ check (runes_of_ascii "packet
-calculatedFrom { Pad { match
-    tag as metadata {
-    ""x y"":tag 10 :Packet,[ 007
-, ""it's"" ,
-    0
-, 3
-,
-4294967296
-    // c
-    ,""" ++ [28040; 24687]%N ++ runes_of_ascii """ , ""\n"" ,""a	b"" ] : Logon , 3 : A ,
-    [
-0123456789 ] : leftPad, } , } ,//	t
-@lengthOf( int
-) repeat char[ 255 ] msg_type `" ++ [28040; 24687; 31867; 22411]%N ++ runes_of_ascii "` , Pad @calculatedFrom(""" ++ [233]%N ++ runes_of_ascii "t" ++ [233]%N ++ runes_of_ascii """ ) , @tag(65535)  f32 u128 `// not a comment` ,zchar[ //x
-3 ]
-    leftPad
-// trailing space 
-// " ++ [27880; 37322]%N ++ runes_of_ascii "
-`" ++ [28040; 24687; 31867; 22411]%N ++ runes_of_ascii "`,@rightPad( ' ' ) @lengthOf( roots ) /// triple
-repeat char[
-    10]
-leftPad,Logon charz
-    // @lengthOf(
-    `line1
-line2` , } MetaData _x
-{ string Z9_
-`tab	here`
-,u _x ``
-    , zchar[
-    10]
-asx
-`line1
-line2`, u128 Logon , char[
-    7
-] u128 , options1	repeatCount , }options {} packet
-    /// triple
-    body
-    {// `tick` ""quote"" 'q'
-@calculatedFrom( ""a	b""
-)  char[] len
-,	@lengthOf( Packet )
-    match
-//	t
-/// triple
-zchar as i64_{ [ ""x y"",""" ++ [28040; 24687]%N ++ runes_of_ascii """ ,	3, 65535
-    ,""`tick`"" , ""{,}"" , ""\" ++ [233]%N ++ runes_of_ascii """ , 42 ] : i64_ ,} ,
-matchKey
-chars , @lengthOf( x_y_z
-// packet A { u8 x, }
-//
-) @tag( 00 )a1 @lengthOf(repeatCount ) // trailing space 
-,}
-
-")).
-Eval vm_compute in ("<<<M1058>>>" ++ check (runes_of_ascii "root
-    packet rootA {
-x_y_z { _x// a // b
-, } ,	}
-    MetaData leftPad { } packet float {	repeat // trailing space 
-Header{  float64 i64_
-    @calculatedFrom( ""{,}"" ) `crlf
-line` ,// c
-}
-    , // @lengthOf(
-zchar
-    // " ++ [27880; 37322]%N ++ runes_of_ascii "
-    { charz @calculatedFrom(//x
-""a	b""  ),  zchar[	3	]
-T @calculatedFrom(
-    ""it's"")
-, packetx ,	x_y_z As`u8 x,` ,  },
-} root packet
+    """"
+    ) match i64_ as roots{ [
 // `tick` ""quote"" 'q'
-//	t
-asx{ repeat
-uint32
-u128 ,
-    @tag( /// triple
-3) Z9_
-, crc	@calculatedFrom( """"
-// @lengthOf(
-// " ++ [27880; 37322]%N ++ runes_of_ascii "
-) `{ , }` ,  @calculatedFrom(
-""a\\"" )@calculatedFrom( ""a\""b"" ) @tag(
-0123456789
-    )
-match
-float
-as u{ //
-[ 1
-// `tick` ""quote"" 'q'
-//x
-, 0 ,
-007 , """ ++ [128512]%N ++ runes_of_ascii """ ,
-// " ++ [128512]%N ++ runes_of_ascii " emoji
-//
-3 ,	1
-// " ++ [128512]%N ++ runes_of_ascii " emoji
-// @lengthOf(
-, """ ++ [28040; 24687]%N ++ runes_of_ascii """, 10
-    ]: repeatCount ,} ,  repeat char metadata
-`tab	here`
-,
-    // @lengthOf(
-    @tag( 65535	)// a // b
-i64_ {
-    // " ++ [128512]%N ++ runes_of_ascii " emoji
-    i32 roots`a\`	, } , @lengthOf( repeatCount
-)
-    // a // b
-    i16
-    rootA @lengthOf( u) ,@lengthOf( Header ) _x{ repeat A i8i8
-    ,
-    }//
-, }")).
-Eval vm_compute in ("<<<M3815>>>" ++ check (runes_of_ascii "MetaData o {
-    char[255] BodyLength,
-}
-
-packet crc {
-    @tag(7)
-    calculatedFrom @lengthOf(Header),
-    len {
-        float {
-            i32 T,
-            stringy string_,
-            char[65535] Packet @lengthOf(a1) ``,
-            falsey {
-                u16 Logon `{ , }`,
-            },
-        },
-        repeat falsey,
-        repeat u8 Logon,
-    },
-    zchar[65535] lengthOf @lengthOf(asx) `line1
-    line2`,
-    @rightPad('0')
-    int16 f32a,
-    @rightPad('\x00')
-    char[] len `" ++ [28040; 24687; 31867; 22411]%N ++ runes_of_ascii "`,
-    match string_ as string_ {
-        [10, 007, 0123456789, ""a\\""] : As,
-        [""`tick`""] : metadata,
-        ""\n"" : falsey,
-        // `tick` ""quote"" 'q'
-        [3, """ ++ [233]%N ++ runes_of_ascii "t" ++ [233]%N ++ runes_of_ascii """, ""CRC32""] : lengthOf,
-        00 : x_y_z,
-    },
-    packetx {
-        repeat a1 `it's`,
-        stringy `{ , }`,
-        match T as MetaDataX {
-            ""CRC32"" : lengthOf,
-        },
-    },
-}
-
-MetaData tag {
-}
-
-packet Z9_ {
-    i16 rootA `
-    `,//	t
-}")).
-Eval vm_compute in ("<<<M3862>>>" ++ check (runes_of_ascii "  root
-packet As {@tag(
-
-4294967296
-)
-
-    packetx // packet A { u8 x, }
-    	,
-
-    @calculatedFrom(""" ++ [128512]%N ++ runes_of_ascii """ )
-
-i32
-
-crc// " ++ [128512]%N ++ runes_of_ascii " emoji
-	,
-@lengthOf(
-x_y_z)@lengthOf( 
-	    // a // b
-	  body 
-// a // b
-		// c
-
-) 
-BodyLength
-{match  repeatCount
-as
-	int
-    {
-""\" ++ [233]%N ++ runes_of_ascii """ :
-    body
-, // packet A { u8 x, }
-    ""// no comment"" : falsey ,""abc"" :
-
-    tag""a	b"" :	zchar ,
-// trailing space 
-    007  : Packet
-	, 
-},  // " ++ [128512]%N ++ runes_of_ascii " emoji
-    } , repeat
-	falsey
-    trueish
-	,
-@leftPad(
-' ' ) @lengthOf(	// packet A { u8 x, }
-Logon ) @leftPad 
-(
-)int @lengthOf(u8x
-
-    ) ,
-zchar[ 
-  // " ++ [27880; 37322]%N ++ runes_of_ascii "
-  // packet A { u8 x, }
-  007
-]
-
-falsey  , 
-@rightPad
-    ( )float@lengthOf( Logon  )
-
-,
-    @rightPad('\x00'
-) 
-@calculatedFrom( /// triple
-""a	b""
-    )Z9_
-
-    u8x
-
-    , 
-@tag( 3	)  string_
-u128
-,
-}
-
-options	{
-
-u128=	""it's""
-;
-
-    metadata
-=""abc"" string_=
-    true ;f32a	=	// c
-    true } packet
-i8i8	{ }
-")).
-Eval vm_compute in ("<<<M376>>>" ++ check (runes_of_ascii "packet options1 { repeat  matchKey `doc` , char[] string_
-    // " ++ [27880; 37322]%N ++ runes_of_ascii "
-    `
-`, // packet A { u8 x, }
-uint16 T , repeatCount
-    _x
-    ,} packet msg_type
-    { @lengthOf( Pad
-    )
-asx @calculatedFrom(
-    ""\" ++ [233]%N ++ runes_of_ascii """) ,  @tag( 4294967296
-) Logon `a\`,@tag( 0
-    )
-crc  @lengthOf(charz// " ++ [128512]%N ++ runes_of_ascii " emoji
-) `u8 x,`
-, char[	0	] f32a // " ++ [128512]%N ++ runes_of_ascii " emoji
-,  u8
-    A `line1
-line2`,Z9_ u `{ , }`
-, repeat uint8x `" ++ [28040; 24687; 31867; 22411]%N ++ runes_of_ascii "`	, int8 Packet@calculatedFrom( ""{,}""
-) ,
-    // packet A { u8 x, }
-    } packet A {
-// trailing space 
-// trailing space 
-@tag( 3)@tag(
-    /// triple
-    1
-    )
-u16 A// c
-, @tag(1 )
-match
-//
-// @lengthOf(
-roots as
-pack{ // c
-[
-    ""CRC32"" ] :
-i8i8
-""a\\""
-    : trueish , [ ""{,}"",	""" ++ [28040; 24687]%N ++ runes_of_ascii """ ] :
-    falsey
-    // `tick` ""quote"" 'q'
-    } // a // b
-, @rightPad// packet A { u8 x, }
-( ' ') int16 Packet `
-` , // `tick` ""quote"" 'q'
-repeat zchar[1
-] Pad  , // a // b
-}
-")).
-Eval vm_compute in ("<<<M855>>>" ++ check (runes_of_ascii "MetaData Logon {int x `u8 x,` , i16 calculatedFrom `say ""hi""` , trueish x_y_z `// not a comment`	, }
-options {len  = true	;} packet
-crc {
-@lengthOf( matchKey ) repeat  body
-{ uint64 chars
-    , match
-Packet as
+// packet A { u8 x, }
+""`tick`"" ,
+""1"" , 0,
+3
 // " ++ [27880; 37322]%N ++ runes_of_ascii "
 // c
-float
-    {""// no comment"" :
-// packet A { u8 x, }
-// packet A { u8 x, }
-calculatedFrom	, } , u64 body  , i8i8
-lengthOf `doc`
-    , } , repeat // @lengthOf(
-o,
-match f32a
-    as int// `tick` ""quote"" 'q'
-{ 255 : u8x// c
-,""x y""	: As , ""\" ++ [233]%N ++ runes_of_ascii """ // packet A { u8 x, }
-:
-    _x 0 : _x ,
-    ""1""
-:
-uint8x
-    // trailing space 
-    , }
-// " ++ [128512]%N ++ runes_of_ascii " emoji
-//	t
-,match	falsey	as float  { [ ""`tick`"" ]:
-string_ , 10
-:  u8x ,"""" : crc// @lengthOf(
+] :
+rootA
+//x
+// c
+00:
+pack [ 0123456789, 0123456789 , ""1""
+    ,	255 ]
+: /// triple
+msg_type ,
+10
+    :chars ""it's"": o
+, /// triple
+} ,
+BodyLength{ char[ 255 // " ++ [128512]%N ++ runes_of_ascii " emoji
+] metadata`
+` ,
+} , options1 { match  asx
+    // c
+    as packetx{ ""abc""/// triple
+: u128 [ 3
 ,
+4294967296 ,	"""" ,
+""" ++ [28040; 24687]%N ++ runes_of_ascii """,
+    4294967296 ]
+: leftPad , 0 :
+Header , """ ++ [233]%N ++ runes_of_ascii "t" ++ [233]%N ++ runes_of_ascii """
+:  T , } ,
+repeat char[] Z9_ `{ , }` ,
+    }
+,
+@calculatedFrom( ""packet"" ) @calculatedFrom(
+""x y"")@tag(255  ) leftPad
+{ repeat leftPad
+{
+    float32 falsey @lengthOf(falsey ) `a\` ,	zchar[ 0 ] matchKey ,zchar[ 4294967296
+    ] a1, match packetx	as // @lengthOf(
+u {  [ 00 ,	""abc"" , """ ++ [233]%N ++ runes_of_ascii "t" ++ [233]%N ++ runes_of_ascii """ ,00,// " ++ [27880; 37322]%N ++ runes_of_ascii "
+""a\\""	, ""{,}"" ]
+    : BodyLength ,""" ++ [233]%N ++ runes_of_ascii "t" ++ [233]%N ++ runes_of_ascii """
     /// triple
-    0
-: rootA// trailing space 
-, ""abc""  : i64_
-, } , @rightPad
-( ' ' ) repeat float32	o // trailing space 
-`// not a comment` ,o As `a\` ,	}
-
-")).
-Eval vm_compute in ("<<<M5>>>" ++ check (runes_of_ascii "root packet // a // b
-chars{
-    u32
-u8x `it's`
-    , A o
-,
-Packet {u/// triple
-`doc` , repeat
-// @lengthOf(
-// " ++ [128512]%N ++ runes_of_ascii " emoji
-Header
-    u8x  ,
-i8i8
-As , } , @calculatedFrom(
-// `tick` ""quote"" 'q'
-// trailing space 
-""a\\"" ) charz
-    { //x
-char[]a1 , //
-string Pad , x repeatCount
-, metadata {
-chars{ body`a\`  , match
-    trueish as lengthOf
-    { 0:u8x
-    , } , match packetx as	string_  {0123456789
-:BodyLength , } , } ,
-repeat calculatedFrom
-    roots
-    ,
-repeat
-Packet
-    ,int32 Logon, }
-    ,// c
-}, repeatCount,
-    @lengthOf( float) match trueish as Header { [ ""{,}"" , ""1""
-]
-    : // " ++ [27880; 37322]%N ++ runes_of_ascii "
-f32a ,} ,	i16 chars
-    , match As  as Pad { 3: f32a , [ 4294967296
-    ] : body,[	""{,}""
-]
-: u8x // `tick` ""quote"" 'q'
-, ""a	b"" :
-    Z9_,
+    :asx  , [
+    ""a	b"" ,007 ]
+    :
+body
+    /// triple
+    ,[ 00 ,0123456789 ] :
+crc
+}
+    ,} , }
+    , repeat uint8x o
+`doc` , @tag(
+65535 )u16 Logon  @lengthOf( uint8x	)
+    `a\`, f32a
+    { repeat  char[]
+matchKey// " ++ [128512]%N ++ runes_of_ascii " emoji
+`
+` , zchar[ 4294967296 ] i64_,
     // packet A { u8 x, }
-    } ,// " ++ [27880; 37322]%N ++ runes_of_ascii "
-} //x")).
-Eval vm_compute in ("<<<M3755>>>" ++ check (runes_of_ascii "MetaData Logon {
-    int x `u8 x,`,
-    i16 calculatedFrom `say ""hi""`,
-    trueish x_y_z `// not a comment`,
+    repeat lengthOf {	repeat i16 matchKey	, u8 falsey ,
+i32 Pad @lengthOf(u8x )
+    `` ,
+    charz
+`crlf
+line`,}
+, packetx {int64 trueish
+, char[42	]  u @lengthOf(u )`// not a comment`,repeat
+char[ 1 ]i8i8 ,
+    match x_y_z as u8x {
+    [
+    ""\n""
+//
+// " ++ [27880; 37322]%N ++ runes_of_ascii "
+] : calculatedFrom } , } ,
+    } , @leftPad ( '0'
+    //x
+    )
+    As @calculatedFrom(
+""it's""
+)	, @calculatedFrom(""CRC32""
+)x_y_z
+@lengthOf( crc
+    ) , @leftPad
+('0'	) @calculatedFrom( ""`tick`"" )@tag( 10)char[ 42 ]Z9_ @calculatedFrom(""abc"" ) // " ++ [128512]%N ++ runes_of_ascii " emoji
+,}
+    MetaData
+//	t
+/// triple
+repeatCount // trailing space 
+{ i8
+    u `tab	here`, char[ 255
+]
+    u,
+    // @lengthOf(
+    u32
+    msg_type`doc`
+,i64_ _x	,
+}
+options  {
+    repeatCount=255 ;x_y_z = ' ' ; charz = uint8 ; Packet = false BodyLength=true
+;
+    } options { asx
+    // @lengthOf(
+    =""" ++ [128512]%N ++ runes_of_ascii """uint8x =char[  4294967296 ]
+// " ++ [27880; 37322]%N ++ runes_of_ascii "
+// a // b
+; u = '0' }
+// trailing space 
+")).
+Eval vm_compute in ("<<<M95>>>" ++ check (runes_of_ascii "MetaData chars {} packet lengthOf
+{ @lengthOf(_x )uint16 /// triple
+Z9_`" ++ [28040; 24687; 31867; 22411]%N ++ runes_of_ascii "`, repeat BodyLength{ repeat
+    u8x zchar  , } ,a1	,
+    // " ++ [27880; 37322]%N ++ runes_of_ascii "
+    T @calculatedFrom( ""\" ++ [233]%N ++ runes_of_ascii """)
+, match //	t
+calculatedFrom
+    as string_
+    // " ++ [27880; 37322]%N ++ runes_of_ascii "
+    { """ ++ [233]%N ++ runes_of_ascii "t" ++ [233]%N ++ runes_of_ascii """
+    :// `tick` ""quote"" 'q'
+_x // " ++ [128512]%N ++ runes_of_ascii " emoji
+, ""a	b""
+    : zchar [ ""x y"",
+    10
+    ,	""abc""
+,
+""packet""
+, // c
+""{,}"" //
+,00] :  u128 ,""abc"":x_y_z
+    ,  """ ++ [233]%N ++ runes_of_ascii "t" ++ [233]%N ++ runes_of_ascii """
+    : // packet A { u8 x, }
+packetx
+} // a // b
+, zchar[
+    1 ]// " ++ [128512]%N ++ runes_of_ascii " emoji
+A
+    // " ++ [27880; 37322]%N ++ runes_of_ascii "
+    @lengthOf( float
+    // `tick` ""quote"" 'q'
+    ) `say ""hi""`
+    // trailing space 
+    , repeat f32 asx
+// " ++ [27880; 37322]%N ++ runes_of_ascii "
+// " ++ [128512]%N ++ runes_of_ascii " emoji
+,
+    // " ++ [128512]%N ++ runes_of_ascii " emoji
+    @rightPad
+    ( ' ' // a // b
+)	char[] msg_type `say ""hi""`,
+} packet Pad
+// " ++ [27880; 37322]%N ++ runes_of_ascii "
+// " ++ [27880; 37322]%N ++ runes_of_ascii "
+{ As @lengthOf( rootA )
+`say ""hi""` , repeat
+    _x // trailing space 
+{
+    Logon
+Foo, // `tick` ""quote"" 'q'
+falsey
+MetaDataX ,
+    }  ,msg_type
+    // trailing space 
+    roots `line1
+line2`,pack pack , chars	`crlf
+line` ,@lengthOf(lengthOf) match lengthOf
+    as o { 3
+    : falsey
+    , } ,}packet // trailing space 
+o {// packet A { u8 x, }
+i64_`{ , }` ,
+match MetaDataX as Foo { """ ++ [233]%N ++ runes_of_ascii "t" ++ [233]%N ++ runes_of_ascii """ :
+    leftPad ,
+[	00 ] : f32a
+[ ""`tick`"",
+    0123456789
+]
+: float ,
+""it's"" : pack
+, ""`tick`"" :
+charz } ,
+options1
+    leftPad ,// packet A { u8 x, }
+string body //
+, @calculatedFrom(
+""{,}""  )As
+    //	t
+    , // " ++ [128512]%N ++ runes_of_ascii " emoji
+match u as
+    Packet
+    {
+    ""it's"" :
+_x	, 10 : BodyLength , ""\n"" :
+float 4294967296 :falsey , 007 :	charz
+,00 :stringy , },  repeat string_ ,
+}root packet
+Foo	{ repeat
+    // " ++ [27880; 37322]%N ++ runes_of_ascii "
+    char[	7 ] lengthOf `
+`
+    ,
+//	t
+//x
+@lengthOf( Packet ) repeat // `tick` ""quote"" 'q'
+i32 float , options1 _x	`{ , }`
+, }
+")).
+Eval vm_compute in ("<<<M821>>>" ++ check (runes_of_ascii "
+options {
+    msg_type
+    = ""{,}"" ;
+    asx =true ; trueish = ""// no comment""
+Pad =
+""\n"";
+    metadata =uint64
+;
+    }root // @lengthOf(
+packet
+// @lengthOf(
+// c
+int{  @tag(  0123456789) @tag( //	t
+00
+) @calculatedFrom(
+""packet"" )zchar[4294967296
+    ] leftPad `line1
+line2` , @calculatedFrom( ""x y"")
+falsey
+@calculatedFrom( ""x y""
+//
+// `tick` ""quote"" 'q'
+) ,
+repeat uint8 Packet ,@tag(
+4294967296 ) u8x ,
+    repeat	char[ 42
+] Logon `it's` , int16
+falsey@calculatedFrom( ""it's""
+)
+    //
+    ,
+msg_type
+@lengthOf(leftPad
+)
+    /// triple
+    `" ++ [28040; 24687; 31867; 22411]%N ++ runes_of_ascii "` , match string_ as	charz
+    {
+    //
+    ""it's"" :Foo ,0123456789:
+calculatedFrom ""// no comment""
+    : T,
+[
+    ""// no comment""
+, 65535  , ""a\\""
+    , ""abc"",007
+,// " ++ [27880; 37322]%N ++ runes_of_ascii "
+""// no comment"" ,  4294967296	]  :
+Z9_
+}
+    // packet A { u8 x, }
+    ,float64  charz@lengthOf( Z9_ ) `a\`,
+} packet a1 { } packet T  { } packet i64_	{ repeat zchar[65535
+]
+Logon, @calculatedFrom( ""CRC32"" // " ++ [128512]%N ++ runes_of_ascii " emoji
+)repeat string stringy `crlf
+line` ,
+    repeat char[ 007 ] leftPad ,
+@calculatedFrom(
+    //
+    ""abc""
+    ) string calculatedFrom `two words`, len {
+    // `tick` ""quote"" 'q'
+    float64 lengthOf `" ++ [28040; 24687; 31867; 22411]%N ++ runes_of_ascii "`
+// " ++ [27880; 37322]%N ++ runes_of_ascii "
+// packet A { u8 x, }
+, } ,A
+    @calculatedFrom(""abc""
+) `line1
+line2` ,
+    zchar[  10] charz `" ++ [28040; 24687; 31867; 22411]%N ++ runes_of_ascii "` ,repeat Packet ,
+    // packet A { u8 x, }
+    string
+As	@lengthOf( roots ) , @tag( 7
+) Packet chars ,
+//x
+// trailing space 
+}
+")).
+Eval vm_compute in ("<<<M1331>>>" ++ check (runes_of_ascii "packet//x
+Logon{@tag( 255 ) match roots as u128{  ""`tick`"" //x
+:
+matchKey
+    ,	1 : Foo} ,
+@tag( 65535 ) @lengthOf(	charz ) @calculatedFrom(
+""// no comment"" ) i8 trueish ,
+    float32 o  @lengthOf( i8i8 )
+,
+    @rightPad ( ' ' ) u8x  `two words`,
+repeat u64 i8i8 ,  match
+    zchar as x_y_z { """ ++ [128512]%N ++ runes_of_ascii """ : charz , } // @lengthOf(
+,@lengthOf(
+repeatCount)// " ++ [128512]%N ++ runes_of_ascii " emoji
+u32 falsey `// not a comment` , } options // @lengthOf(
+{ // " ++ [128512]%N ++ runes_of_ascii " emoji
+falsey=""" ++ [128512]%N ++ runes_of_ascii """ ;
+packetx = """ ++ [233]%N ++ runes_of_ascii "t" ++ [233]%N ++ runes_of_ascii """
+// @lengthOf(
+// @lengthOf(
+u128// " ++ [128512]%N ++ runes_of_ascii " emoji
+= """" ;options1
+= true
+; // packet A { u8 x, }
+} options{ float =""a	b"" ; packetx =// `tick` ""quote"" 'q'
+true calculatedFrom =
+u64
+    ;Packet =
+'\x00' ;
+    BodyLength=
+    false //	t
+; } MetaData falsey
+{// " ++ [27880; 37322]%N ++ runes_of_ascii "
+BodyLength Logon`line1
+line2`
+,
+    zchar chars `a\` , repeatCount
+// " ++ [27880; 37322]%N ++ runes_of_ascii "
+// `tick` ""quote"" 'q'
+BodyLength , zchar
+i8i8 ,
+    }packet	packetx { repeat
+    int8
+Logon
+    ,
+    @calculatedFrom( ""abc"" ) match Logon as	BodyLength {	65535 /// triple
+:pack ,// a // b
+[ ""CRC32""
+    , ""it's""
+, 4294967296 ,
+""CRC32"" ,
+    ""a\\"",""`tick`"",
+255, 007
+]
+    // packet A { u8 x, }
+    : matchKey
+, [255
+]  : falsey
+, } , repeat Packet // c
+`tab	here` ,
+    @lengthOf(
+    charz
+)zchar[ 42] tag@calculatedFrom( ""// no comment"" ) `
+`	, uint64 //	t
+u8x
+`" ++ [28040; 24687; 31867; 22411]%N ++ runes_of_ascii "` , }
+")).
+Eval vm_compute in ("<<<M255>>>" ++ check (runes_of_ascii "/// triple
+MetaData Logon
+    {i16 body
+, } /// triple
+root packet
+Z9_ {	_x
+// packet A { u8 x, }
+// " ++ [128512]%N ++ runes_of_ascii " emoji
+{
+Foo {
+    matchKey { repeat
+    leftPad body ,
+    u128 MetaDataX ,
+    match uint8x as BodyLength{ ""abc"": int , [42
+    ,
+    10
+    ]: Z9_ , 1 :// a // b
+i64_ 0123456789 :
+u ,  ""a\""b""
+: chars , }
+    ,
+repeat //	t
+int32
+//x
+//	t
+packetx
+    , } ,  match zchar as u128
+    // @lengthOf(
+    { 007 //x
+: msg_type	""a\\"" : asx, """":T
+, 007 : charz, ""abc"":
+    /// triple
+    matchKey , ""x y"":  string_ ,
+}
+, repeat  zchar[
+0123456789 ]// trailing space 
+msg_type `doc` ,}, match Z9_ as MetaDataX
+{	[ 0 , ""1""
+    ]:
+    // packet A { u8 x, }
+    uint8x [ 65535 ,
+//
+//	t
+""""] :
+    x_y_z
+,""x y"": falsey ,
+65535
+:
+packetx, ""// no comment"": falsey [ 4294967296 , ""a\""b"" ,
+    ""\n"" , ""a\""b""	,
+    255 ]: charz	, } // @lengthOf(
+,
+}
+,
+    chars
+    int `u8 x,`
+    , @tag(65535)
+char[] Header `{ , }` , @tag(
+    255
+) match	repeatCount as
+    A { [4294967296 ,""\" ++ [233]%N ++ runes_of_ascii """ , ""packet"" , // packet A { u8 x, }
+42 ,
+007 , """ ++ [128512]%N ++ runes_of_ascii """, ""a\""b"" ]// c
+:
+    lengthOf , ""// no comment""
+:
+a1 ,""\n"" : MetaDataX//x
+3 // a // b
+:
+// @lengthOf(
+// packet A { u8 x, }
+body	, } , }
+")).
+Eval vm_compute in ("<<<M4277>>>" ++ check (runes_of_ascii "packet calculatedFrom {
+    Pad {
+        match tag as metadata {
+            ""x y"" : tag,
+            10 : Packet,
+            [
+                007, ""it's"", 0, 3, 4294967296,
+                """ ++ [28040; 24687]%N ++ runes_of_ascii """, ""\n"", ""a	b""
+            ] : Logon,
+            3 : A,
+            [0123456789] : leftPad,
+        },
+    },//	t
+    @lengthOf(int)
+    repeat char[255] msg_type `" ++ [28040; 24687; 31867; 22411]%N ++ runes_of_ascii "`,
+    Pad @calculatedFrom(""" ++ [233]%N ++ runes_of_ascii "t" ++ [233]%N ++ runes_of_ascii """),
+    @tag(65535)
+    f32 u128 `// not a comment`,
+    zchar[3] leftPad `" ++ [28040; 24687; 31867; 22411]%N ++ runes_of_ascii "`,
+    @rightPad(' ')
+    @lengthOf(roots)
+    /// triple
+    repeat char[10] leftPad,
+    Logon charz `line1
+        line2`,
+}
+
+MetaData _x {
+    string Z9_ `tab	here`,
+    u _x ``,
+    zchar[10] asx `line1
+        line2`,
+    u128 Logon,
+    char[7] u128,
+    options1 repeatCount,
 }
 
 options {
-    len = true;
 }
 
-packet crc {
-    @lengthOf(matchKey)
-    repeat body {
-        uint64 chars,
-        match Packet as float {
-            ""// no comment"" : calculatedFrom,
-        },
-        u64 body,
-        i8i8 lengthOf `doc`,
-    },
-    repeat o,
-    match f32a as int {
-        255 : u8x,
-        ""x y"" : As,
-        ""\" ++ [233]%N ++ runes_of_ascii """ : _x,
-        0 : _x,
-        ""1"" : uint8x,
-    },
-    match falsey as float {
-        [""`tick`""] : string_,
-        10 : u8x,
-        """" : crc,
-        /// triple
-        0 : rootA,
-        ""abc"" : i64_,
-    },
-    @rightPad(' ')
-    repeat float32 o `// not a comment`,
-    o As `a\`,
-}")).
-Eval vm_compute in ("<<<M39>>>" ++ check (runes_of_ascii "  options
-    {string_
-    //x
-    =char[ 7 ] ;} options { crc=float64 ; Logon
-    = false // a // b
-As
-    =
-    '0' f32a =
-char[] ; // packet A { u8 x, }
-T =
-00	}	root
-packet x { @calculatedFrom(
-""1"" )repeat zchar[
-    255
-] // " ++ [128512]%N ++ runes_of_ascii " emoji
-string_ , } root packet int {	@tag(4294967296) char[255 // packet A { u8 x, }
-]
-a1
-    ,repeat
-x ``, char[]  packetx
-@lengthOf( uint8x ) `u8 x,` , zchar[ 10 ]leftPad @calculatedFrom( ""a	b"" )
-, lengthOf @calculatedFrom( """"	) , @calculatedFrom(
-    /// triple
-    ""packet"" )
-    i32 matchKey , @rightPad (
-) zchar[ 1
-] A, u32
-Packet @calculatedFrom( ""{,}"" ) `a\`	,// c
-repeat char[00]Header	`say ""hi""`
-    //x
-    , stringy	trueish `// not a comment`, } 	 ")).
-Eval vm_compute in ("<<<M1066>>>" ++ check (runes_of_ascii "MetaData
-zchar{ } packet
-Packet { u16 x  @calculatedFrom(
-    """ ++ [28040; 24687]%N ++ runes_of_ascii """ )
-``
-,
-    // " ++ [128512]%N ++ runes_of_ascii " emoji
-    @tag(	7 )	@tag( 00)
-Packet u128,	@lengthOf( //
-float )
-match A
-as
-// trailing space 
-// @lengthOf(
-charz
-{00 // `tick` ""quote"" 'q'
-: x ,[ 0 ,
-255
-, ""it's"" ,10
-    ] : Packet
-    , ""a\\"":  metadata
-, [// c
-""`tick`"" , 10 ] /// triple
-:
-chars , [ ""a\""b"" // packet A { u8 x, }
-] :trueish, } ,uint64 string_ // trailing space 
-,
-@rightPad
-(// a // b
-' ')  float64
-    stringy `line1
-line2`  ,  @tag( 00 //
-)	uint16 As , }//	t
-options {Logon =
-    false  ;
-    // a // b
-    body =
-    f64 // c
-; } MetaData asx { } packet leftPad{float @lengthOf( A ) `a\`  ,
-}
-// " ++ [27880; 37322]%N ++ runes_of_ascii "
-")).
-Eval vm_compute in ("<<<M4477>>>" ++ check (runes_of_ascii "packet  A	// c1
-
-	{ // c2
-u8	// c3
-    a
-
-    // c4
-    ,
-	// c5
-	}  
-      // c6
-  packet 
-      // c7
-	  B
-    { // c9
-	  u16 	 // c10
-
-b , 	 // c12
-  	} 
-    // c13
-  	root 
-  // c14
-      packet // c15
-		P{
-    u8 	 // c18
-K1	// c19a
-
-// c19b
-
-, // c20a
-      // c20b
-	u8 K2
-, 	 // c23a
-  // c23b
-	match  K1 
-    // c25
-
-as 
-    // c26
-	M1  // c27
-
-{	1 // c29
-
-	:	// c30
-    	A// c31
-  ,  // c32a
-  // c32b
-
-} 	 // c33
-  	, 	 // c34
-    match	// c35
-  K2	// c36a
-  // c36b
-  	as  
-      // c37
-
-M2 // c38
-  { // c39
-    1:  // c41a
-
-// c41b
-	B 	 // c42a
-		// c42b
-  , // c43
-} 	 // c44a
-// c44b
-    	, }
-
-")).
-Eval vm_compute in ("<<<M3627>>>" ++ check (runes_of_ascii "packet leftPad {
-    @tag(00)
-    As chars,
-    u8 i8i8,
-    match o as chars {
+packet body {
+    // `tick` ""quote"" 'q'
+    @calculatedFrom(""a	b"")
+    char[] len,
+    @lengthOf(Packet)
+    match zchar as i64_ {
         [
-            42, 00, ""{,}"", ""1"", ""abc"",
-            ""packet"", """", ""a\""b""
-        ] : uint8x,
-        ""// no comment"" : calculatedFrom,
-        0 : int,
-        ""packet"" : u,
-        /// triple
-        ""CRC32"" : As,
-        0 : len,
+            ""x y"", """ ++ [28040; 24687]%N ++ runes_of_ascii """, 3, 65535, ""`tick`"",
+            ""{,}"", ""\" ++ [233]%N ++ runes_of_ascii """, 42
+        ] : i64_,
     },
-    char[0123456789] float @calculatedFrom(""CRC32""),
-    Pad chars `two words`,
-    string stringy @calculatedFrom(""""),
-    @calculatedFrom(""`tick`"")
-    // packet A { u8 x, }
-    roots @lengthOf(MetaDataX),
-    @tag(4294967296)
-    u32 A ``,
-    Foo,
-    f32 matchKey,
+    matchKey chars,
+    @lengthOf(x_y_z)
+    @tag(00)
+    a1 @lengthOf(repeatCount),
 }")).
+Eval vm_compute in ("<<<M4063>>>" ++ check (runes_of_ascii "
+options
+
+    {
+StringPrefixLenType =
+u8;
+ArrayPrefixLenType = u8
+;FixedStringPadFromLeft
+
+=true ; FixedStringPadChar=
+' ' 
+; }
+packet
+
+Logout {  repeat	string
+	Px 
+,
+    repeat
+    string	seqNo
+,
+
+InMsgkind64
+{  uint16	OrderId
+
+,	char[]
+count
+    ,repeat
+
+    i32 venue
+    ,} , }packet Heartbeat	{
+float32
+tag7	,repeat 
+InPrice50
+{	repeat char[
+    5 ] 
+lastPx	,
+InRef42
+{
+    u8 pad0 
+,
+	}
+    ,  uint32
+    Acct 
+,
+
+repeat
+Logout
+, repeat 
+char[
+
+    5
+	]
+    Qty
+    ,
+
+} ,repeat  InSeqno30 {
+repeat	Logout
+
+    ,
+}
+	,
+@leftPad(
+
+    '0' ) char[
+    12	]
+
+Acct,
+	char[]
+Side2
+
+    , repeat
+	string msgKind
+,
+}	packet
+    Ack  {  Heartbeat 
+, char[	8 ]  seqNo	,
+	float64
+clOrdID
+
+,
+
+    }
+
+packet 
+Trade	{ char[]
+    OrderId
+    , 
+f64	Side2	,	zchar[
+    8
+	]f1 ,
+	string
+	Qty
+
+,
+float64 
+seqNo
+
+, 
+repeat
+
+Logout,  }
+	packet Order{ f32	OrderId 
+,  repeat
+    u8
+
+    x,
+Ack 
+,
+    zchar[ 
+7]
+Note  ,
+	}
+root  packet
+    Logon
+{ @rightPad( '\x00'
+    )
+
+    char[
+
+9
+]
+
+    f1,
+    }
+
+")).
+Eval vm_compute in ("<<<M903>>>" ++ check (runes_of_ascii "MetaData falsey {
+    i8 Logon,// packet A { u8 x, }
+len
+    metadata
+    `doc` ,
+} MetaData // " ++ [27880; 37322]%N ++ runes_of_ascii "
+Foo{ char[	65535]  calculatedFrom `
+`
+// a // b
+//x
+, matchKey// c
+zchar ,	u stringy `
+` ,
+    MetaDataX u `say ""hi""` ,// c
+} packet
+msg_type {@lengthOf(Z9_)
+//x
+//x
+@lengthOf(
+x
+)
+    @tag( 0
+    ) calculatedFrom
+    {
+msg_type@calculatedFrom(""CRC32"") `say ""hi""` ,repeat	matchKey { repeat
+    T
+{ char[ // " ++ [27880; 37322]%N ++ runes_of_ascii "
+1 ] T ,
+repeatCount `line1
+line2`
+    ,match	int as x {""packet"" //x
+:  options1 ,
+00
+: calculatedFrom 00 : falsey , } , } ,
+    char[] uint8x
+, match Packet as falsey {
+7:// packet A { u8 x, }
+f32a , // a // b
+10:
+u
+, 1
+:Header ,
+[ ""packet"" // " ++ [27880; 37322]%N ++ runes_of_ascii "
+, 0
+// " ++ [27880; 37322]%N ++ runes_of_ascii "
+// @lengthOf(
+,""a	b"" ]
+:o
+0123456789:
+    chars}
+    , zchar[ 65535 ]
+Foo ,} ,
+}
+    , }// packet A { u8 x, }
+root packet u//x
+{ @tag(
+007
+) i32// trailing space 
+stringy @lengthOf(
+    //
+    a1) `{ , }` , } MetaData
+string_ { uint64 chars
+`crlf
+line` ,
+    char[ // @lengthOf(
+3
+    ] u8x `a\` , }")).
+Eval vm_compute in ("<<<M101>>>" ++ check (runes_of_ascii "MetaData
+    asx
+{ }
+    options{
+body =
+//x
+// @lengthOf(
+char[] ;// @lengthOf(
+repeatCount =true ;
+    packetx= ""a\""b""; float
+=
+""x y"" ; zchar
+    // @lengthOf(
+    = ""\" ++ [233]%N ++ runes_of_ascii """ ; } MetaData _x{
+u16 falsey  `` , } root packet
+    metadata {  }	packet Foo { repeat
+    // trailing space 
+    u128
+    , @tag(// trailing space 
+7
+) uint16
+MetaDataX
+    , @tag(1 )
+    /// triple
+    falsey `say ""hi""` , @rightPad ( //	t
+) @tag(3 ) u , @lengthOf( roots// " ++ [128512]%N ++ runes_of_ascii " emoji
+) match body as repeatCount
+{ ""CRC32"" // " ++ [27880; 37322]%N ++ runes_of_ascii "
+: asx  , 42	:  msg_type
+} ,// packet A { u8 x, }
+stringy {repeat char[
+    // c
+    3
+] uint8x ,	match
+Logon
+as	A{ ""abc"" :i8i8 , }  ,match BodyLength as len
+    { [0123456789 ,
+//
+// @lengthOf(
+007
+    ,4294967296,""{,}""
+]:// " ++ [128512]%N ++ runes_of_ascii " emoji
+Foo , } //	t
+, } , @leftPad ( '0'  ) uint8x
+@lengthOf(i8i8) ,//	t
+_x
+    {repeat x  `line1
+line2` , }, @tag( 42 )
+falsey
+    // trailing space 
+    u128 // trailing space 
+, int64 MetaDataX ,}
+")).
+Eval vm_compute in ("<<<M1349>>>" ++ check (runes_of_ascii "  options
+//
+// packet A { u8 x, }
+{ MetaDataX  = '0'
+; Logon=
+    false ; int//	t
+='0' _x
+=
+// trailing space 
+//	t
+""x y""
+//	t
+/// triple
+;}
+    packet
+tag { @tag( /// triple
+10)repeat msg_type ,  match x
+    as
+Foo
+{ ""x y"": body  ,  } , @tag(	0
+)repeat char[
+    7 ] options1	, repeat falsey
+{ int8  options1
+,	i8i8
+`crlf
+line`
+    ,
+u16 // " ++ [27880; 37322]%N ++ runes_of_ascii "
+f32a @calculatedFrom( ""// no comment"" // @lengthOf(
+) , } , @calculatedFrom( ""{,}""// " ++ [128512]%N ++ runes_of_ascii " emoji
+) uint32 repeatCount, msg_type @calculatedFrom( ""it's"" )//
+`crlf
+line` , @tag(// `tick` ""quote"" 'q'
+00) match T as options1
+{ 4294967296 :
+repeatCount  , }
+,
+// @lengthOf(
+//	t
+}
+    // trailing space 
+    MetaData msg_type  {Foo u , char[] Pad
+`
+`
+    , BodyLength As
+,  char[ 007 ] calculatedFrom /// triple
+`a\`
+,
+    //x
+    }  MetaData msg_type {}packet trueish  {T
+    // a // b
+    @lengthOf(
+    pack ) `crlf
+line` ,
+}
+")).
+Eval vm_compute in ("<<<M438>>>" ++ check (runes_of_ascii "root packet len { tag	repeatCount , crc
+{
+    As { T zchar , _x `line1
+line2` , f64 x_y_z ,
+    match packetx  as
+    calculatedFrom
+{ [
+""// no comment"" ,  ""packet"" ]:
+    charz , }// a // b
+, }
+    ,
+} // " ++ [27880; 37322]%N ++ runes_of_ascii "
+,
+zchar[7
+] i64_ `
+`  ,
+// " ++ [128512]%N ++ runes_of_ascii " emoji
+// c
+@calculatedFrom(
+""{,}"" )stringy
+@calculatedFrom( """ ++ [233]%N ++ runes_of_ascii "t" ++ [233]%N ++ runes_of_ascii """ ),match metadata as Z9_
+{ ""a\\"" :
+Logon 7 : Pad ,
+    3
+    :
+    // a // b
+    Foo , [
+    10
+] :
+msg_type ,
+//	t
+// `tick` ""quote"" 'q'
+""\n"" : x
+}, match trueish as pack{ [
+    // trailing space 
+    ""a	b""
+    , 4294967296
+    ,
+""" ++ [233]%N ++ runes_of_ascii "t" ++ [233]%N ++ runes_of_ascii """ , 42, ""{,}""
+// " ++ [27880; 37322]%N ++ runes_of_ascii "
+// c
+, 7	,	255 ] : Logon , // `tick` ""quote"" 'q'
+[
+    ""{,}""
+    ,
+42	,
+00 ] :
+    /// triple
+    crc, 42 : A
+    ,
+""" ++ [28040; 24687]%N ++ runes_of_ascii """ : asx	,[ """ ++ [128512]%N ++ runes_of_ascii """ ,65535	,
+    ""`tick`"" ,
+7 , ""x y"" , ""CRC32""
+    // " ++ [27880; 37322]%N ++ runes_of_ascii "
+    ,
+""" ++ [28040; 24687]%N ++ runes_of_ascii """ //
+]
+// `tick` ""quote"" 'q'
+// @lengthOf(
+: BodyLength ,
+} , }")).
+Eval vm_compute in ("<<<M104>>>" ++ check (runes_of_ascii "
+root packet stringy{ repeat u16
+falsey `
+`
+, u16 Pad,
+    @lengthOf( // packet A { u8 x, }
+x)Logon { repeat
+zchar[65535
+    ]
+Packet`it's` , } ,}packet len {@leftPad( ) repeat metadata { match asx
+    as asx{""a\\"" :
+f32a ,}
+    ,}// " ++ [128512]%N ++ runes_of_ascii " emoji
+,
+uint16  falsey ,body ,repeat
+    // a // b
+    string
+    lengthOf `say ""hi""`
+    , } packet i64_
+{	x
+    ,@lengthOf( i64_ )
+@tag( 7// a // b
+)
+    // `tick` ""quote"" 'q'
+    @calculatedFrom(""""
+    )  repeat zchar[
+    1 ] i8i8
+    ,
+    i64
+    i64_ @calculatedFrom(
+    ""\" ++ [233]%N ++ runes_of_ascii """ )`line1
+line2`,
+float//x
+`tab	here` , @calculatedFrom( """ ++ [128512]%N ++ runes_of_ascii """ ) char[] Logon// @lengthOf(
+`` , match  leftPad as stringy {
+    0
+    :float , ""\n""
+    : // trailing space 
+Pad  , } ,
+i8i8 @lengthOf( roots )	, } root packet	i8i8 { tag
+    @lengthOf(T
+) `" ++ [28040; 24687; 31867; 22411]%N ++ runes_of_ascii "` // " ++ [128512]%N ++ runes_of_ascii " emoji
+, }")).
+Eval vm_compute in ("<<<M706>>>" ++ check (runes_of_ascii "root packet msg_type
+{ rootA @lengthOf( Header )
+//
+// `tick` ""quote"" 'q'
+, @leftPad
+    (
+    ) @rightPad ( '\x00' )@lengthOf(
+/// triple
+// " ++ [27880; 37322]%N ++ runes_of_ascii "
+asx // trailing space 
+)	Packet @lengthOf(
+zchar	) , @tag(	255) Header `" ++ [28040; 24687; 31867; 22411]%N ++ runes_of_ascii "` ,// @lengthOf(
+len @lengthOf( chars
+    )
+    // c
+    `crlf
+line`	, x { _x Pad
+`tab	here` , string msg_type /// triple
+`tab	here`
+,
+calculatedFrom
+    {u128 { repeat zchar[ 255 ]Pad  , }
+, }
+    // c
+    , falsey/// triple
+@calculatedFrom( """ ++ [28040; 24687]%N ++ runes_of_ascii """ ) ,} ,
+int16	rootA
+    ,repeat options1 { repeat char[ 00
+    ] tag,string
+string_ @calculatedFrom( ""a\\"" ),repeat falsey
+    `a\` ,} ,@lengthOf( u8x )zchar `` ,char[
+65535
+    ] metadata `tab	here` ,@lengthOf( crc ) repeat
+/// triple
+//x
+f64
+    charz `a\` ,
+    }
+// @lengthOf(
+")).
+Eval vm_compute in ("<<<M3819>>>" ++ check (runes_of_ascii "packet int {
+    len T,
+}
+
+MetaData trueish {
+    // packet A { u8 x, }
+}
+
+packet BodyLength {
+    @calculatedFrom(""packet"")
+    @calculatedFrom(""CRC32"")
+    // c
+    @tag(00)
+    char[4294967296] stringy,
+    @lengthOf(leftPad)
+    // c
+    char zchar,
+    @lengthOf(MetaDataX)
+    @tag(10)
+    // " ++ [128512]%N ++ runes_of_ascii " emoji
+    @rightPad('0')
+    options1 matchKey `{ , }`,
+    @tag(42)
+    @tag(1)
+    @tag(10)
+    char[] stringy `doc`,
+    msg_type `" ++ [233]%N ++ runes_of_ascii "`,
+    @lengthOf(trueish)
+    body {
+        repeat o stringy `crlf
+        line`,
+        repeat u32 i8i8,
+        char[65535] stringy `a\`,
+        //x
+    },
+    @calculatedFrom(""packet"")
+    matchKey,
+    @tag(4294967296)
+    uint32 rootA @lengthOf(trueish),
+    string body `u8 x,`,
+}")).
+Eval vm_compute in ("<<<M4013>>>" ++ check (runes_of_ascii "// a // b
+root packet charz {
+    @tag(007)
+    repeat u32 chars,
+    Packet `doc`,
+}
+
+MetaData rootA {
+    char[42] Packet `crlf
+        line`,
+}// c
+
+packet asx {
+    repeat calculatedFrom {
+        asx @lengthOf(chars),
+        repeat string x_y_z `line1
+                line2`,
+        repeat u32 i64_ `it's`,
+        A @lengthOf(Logon) `tab	here`,
+    },
+    uint32 asx @lengthOf(BodyLength),
+    // " ++ [27880; 37322]%N ++ runes_of_ascii "
+    // " ++ [27880; 37322]%N ++ runes_of_ascii "
+    char[0123456789] calculatedFrom,
+    repeat Z9_,
+    match asx as uint8x {
+        // c
+        [""{,}"", ""it's"", 7, ""CRC32""] : msg_type,
+        [1] : u8x,
+        ""CRC32"" : T,
+    },
+    i8 charz @calculatedFrom(""x y"") `" ++ [233]%N ++ runes_of_ascii "`,
+}
+
+MetaData u8x {
+    // " ++ [128512]%N ++ runes_of_ascii " emoji
+    i8 T,
+}")).
+Eval vm_compute in ("<<<M363>>>" ++ check (runes_of_ascii "packet A {
+repeat
+    o Z9_ ,
+    @calculatedFrom( """ ++ [233]%N ++ runes_of_ascii "t" ++ [233]%N ++ runes_of_ascii """ ) @calculatedFrom(
+    ""a\\"" ) @tag( 42) match Header as
+    // packet A { u8 x, }
+    tag {
+    ""`tick`"" :
+As , [
+    ""\" ++ [233]%N ++ runes_of_ascii """ ] :
+asx[ 3
+,  ""1"", ""\n"" , 007
+,
+    ""\n"" ] :options1 ""abc"" :
+//	t
+/// triple
+falsey , 4294967296 :	metadata , } ,  @tag(4294967296) tag @calculatedFrom( """ ++ [128512]%N ++ runes_of_ascii """ ) , }
+    // `tick` ""quote"" 'q'
+    packet stringy {
+    char[]
+packetx
+`
+`,string leftPad @lengthOf(float
+    ) ,@tag( //	t
+65535 )	@lengthOf( packetx) @lengthOf( Pad )
+// trailing space 
+// " ++ [27880; 37322]%N ++ runes_of_ascii "
+repeatCount BodyLength , // a // b
+char[] A
+    @lengthOf( // packet A { u8 x, }
+a1)
+    `two words` , }
+packet falsey // " ++ [27880; 37322]%N ++ runes_of_ascii "
+{ }")).
+Eval vm_compute in ("<<<M3647>>>" ++ check (runes_of_ascii "
+packet	Z9_ { a1
+	, 
+}root
+	packet crc{ 
+/// triple
+	// trailing space 
+      u32
+
+o 
+@calculatedFrom(
+
+""it's""  ),
+
+    float32 lengthOf
+
+    ,
+zchar[
+	4294967296
+        //	t
+	]repeatCount@lengthOf(MetaDataX
+
+    )
+`{ , }`
+
+    ,  //
+  @rightPad(	'0'
+
+    // packet A { u8 x, }
+// c
+    ) body
+	{string
+
+    Packet
+`tab	here`
+
+    , 
+}
+, repeat
+	i8i8{
+    match
+
+    BodyLength  as Foo
+{
+7
+:  f32a	, 
+42 
+:A ""packet"" : 
+uint8x
+	,
+
+[
+""a\\"" ] 
+  // a // b
+    :u8x 
+,	""it's""
+
+    :
+As ,  }	,
+	repeat zchar[
+
+65535] crc	, char[] chars`a\`,  }  //	t
+,  char[ 
+4294967296
+    ]
+    repeatCount
+
+`two words`
+,
+
+}
+")).
+Eval vm_compute in ("<<<M1095>>>" ++ check (runes_of_ascii "//
+packet
+// @lengthOf(
+// `tick` ""quote"" 'q'
+u8x
+    { repeat int _x`line1
+line2`
+, @lengthOf( rootA  )
+    int16
+leftPad , repeat Logon  _x
+    , } packet float {
+    repeat u8x // " ++ [128512]%N ++ runes_of_ascii " emoji
+{ match asx as asx {	""a\""b""
+    // `tick` ""quote"" 'q'
+    :
+BodyLength , [ 0 ] : len ,
+    //	t
+    """ ++ [28040; 24687]%N ++ runes_of_ascii """ : BodyLength,
+[ 0 // " ++ [128512]%N ++ runes_of_ascii " emoji
+, ""\" ++ [233]%N ++ runes_of_ascii """ ]
+/// triple
+// " ++ [27880; 37322]%N ++ runes_of_ascii "
+:leftPad ,
+    4294967296: T
+// @lengthOf(
+/// triple
+,
+} //	t
+, } , chars {match Pad as zchar // packet A { u8 x, }
+{
+    10 :
+i8i8
+[ 3
+    // a // b
+    ,
+10 ] : u8x
+    , } , zchar[ 4294967296//
+] stringy @calculatedFrom( ""\" ++ [233]%N ++ runes_of_ascii """
+) , } ,
+    //
+    }
+")).
 Eval vm_compute in ("<<<M261>>>" ++ check (runes_of_ascii "packet// " ++ [128512]%N ++ runes_of_ascii " emoji
 BodyLength {@calculatedFrom( ""it's"" ) zchar[ 0123456789] Z9_ `it's` , } packet zchar{ @lengthOf(
 rootA )@rightPad ( '0' )// " ++ [27880; 37322]%N ++ runes_of_ascii "
@@ -1328,297 +1204,227 @@ charz `" ++ [28040; 24687; 31867; 22411]%N ++ runes_of_ascii "` , } packet i64_
     // trailing space 
     0123456789	] body`it's`
     ,char[ 255 ]leftPad `two words` , }")).
-Eval vm_compute in ("<<<M3678>>>" ++ check (runes_of_ascii "
-
-  packet x  {
-	}MetaData
-	calculatedFrom {	}  MetaData
-
-    x_y_z  {
-	char  u ,	char[]  u8x	,// a // b
-      char[0123456789]	u128
-    //x
-  /// triple
-      `say ""hi""` 
-,
-zchar
-    rootA
-
-    ,
-    f64 
-x_y_z
-
-,  }
-packet	uint8x {@calculatedFrom(	// " ++ [128512]%N ++ runes_of_ascii " emoji
-
-	""a\""b""
-    )
-    @calculatedFrom(
-
-    ""CRC32"" 
-)  repeat
-	char[] trueish ,
-
-} root packet falsey{
-    repeat	// `tick` ""quote"" 'q'
-uint8x  {
-
-string metadata
-
-    @calculatedFrom(  ""a\\""
-    )
-    `" ++ [28040; 24687; 31867; 22411]%N ++ runes_of_ascii "`
-
-    ,	Foo
-
-    @lengthOf(  falsey
-	) , } ,	}
-
-")).
-Eval vm_compute in ("<<<M1369>>>" ++ check (runes_of_ascii "packet leftPad { @calculatedFrom( ""\" ++ [233]%N ++ runes_of_ascii """ ) @rightPad	( '0'
-) @lengthOf( asx)
-BodyLength trueish `it's` ,
-@leftPad('\x00' ) A // " ++ [128512]%N ++ runes_of_ascii " emoji
-i8i8`
-` ,@tag(
-    0 ) matchKey
-{  int16
-falsey `line1
-line2` ,/// triple
-} ,// " ++ [128512]%N ++ runes_of_ascii " emoji
-match tag as
-falsey	{
-    [ ""packet"" ]  : i64_
-3 : leftPad
-    ,	} , @calculatedFrom(
-    ""// no comment""
-) string a1
-,@leftPad // trailing space 
-(
-// `tick` ""quote"" 'q'
-// @lengthOf(
-'\x00' )
-@calculatedFrom( """ ++ [28040; 24687]%N ++ runes_of_ascii """ )
-@calculatedFrom(
-    ""`tick`""
-    )repeat chars
-As
-,
+Eval vm_compute in ("<<<M1372>>>" ++ check (runes_of_ascii "root
+packet stringy	{ repeat char[]
+MetaDataX , @calculatedFrom(""CRC32""
+) body  , @tag(// @lengthOf(
+42 ) @rightPad (
+' ' ) @rightPad (
+    ) // packet A { u8 x, }
+repeat u8x {  BodyLength@lengthOf(A ) ,	} ,match f32a
+    as x_y_z{  4294967296
+: Foo ,
 }
-")).
-Eval vm_compute in ("<<<M4383>>>" ++ check (runes_of_ascii "
-root
-packet
-metadata 
-{  // packet A { u8 x, }
-@rightPad
-(
-' ' // a // b
-
-	)
-	@leftPad
-
-    (	'\x00'
-
-)
-
-    f64 a1 `u8 x,`,  // trailing space 
-  char[ 7 ]  metadata	@lengthOf(	Logon	) , @calculatedFrom(""\n"")
-
-char[4294967296  ]repeatCount
-    ,@tag(65535
-    ) zchar[
-255]
-chars
-	@lengthOf(
-
-    stringy)
-    ,
-zchar// packet A { u8 x, }
-	{ zchar@lengthOf(  crc
-
+// @lengthOf(
+//x
+, repeatCount
+{ uint8 As
+/// triple
+// a // b
+`a\` // a // b
+,} , } packet  u{repeat// `tick` ""quote"" 'q'
+char charz ,
+} options {
+    Header = char ;	}root
+    packet  i64_ {
+u8  Z9_
+`
+`,
+@calculatedFrom( ""1""
+)u128 float  , } options{_x
+    =00 ;	}")).
+Eval vm_compute in ("<<<M672>>>" ++ check (runes_of_ascii "packet
+int
+{ string
+    x_y_z, roots , i8
     /// triple
-		// " ++ [27880; 37322]%N ++ runes_of_ascii "
-  )	// a // b
-    ,
-uint64	Packet `crlf
-line`
-
+    options1 , // " ++ [27880; 37322]%N ++ runes_of_ascii "
+@tag( 3) uint32
+charz@lengthOf(
+repeatCount ) `
+` // " ++ [27880; 37322]%N ++ runes_of_ascii "
+, @lengthOf( u )
+int8 a1
+    @calculatedFrom( """ ++ [128512]%N ++ runes_of_ascii """
+) ,
+    @tag(
+    00)
+match matchKey as
+    roots { ""a	b"" :
+// " ++ [27880; 37322]%N ++ runes_of_ascii "
+// @lengthOf(
+Packet  ,
+""CRC32""// " ++ [128512]%N ++ runes_of_ascii " emoji
+:Foo
+    , 007	://	t
+Foo }
+,  match T  as MetaDataX
+    {""{,}"" : BodyLength // `tick` ""quote"" 'q'
 ,
-} ,
-
+1:
+stringy, // packet A { u8 x, }
+"""":packetx ,00  :
+body 0
+    :
+Foo ,
+42  : x
     /// triple
-
-	}
+    , },}
 ")).
-Eval vm_compute in ("<<<M1229>>>" ++ check (runes_of_ascii "  root
-packet
-zchar
-{
-    _x { uint32
-packetx @lengthOf( pack) ,
-    char[ 10 ] MetaDataX
-`line1
-line2`, char[] leftPad
-, } ,@lengthOf(
-u8x
-    ) repeat u128 _x,	}packet leftPad{char  repeatCount
-, } // `tick` ""quote"" 'q'
-packet pack { @lengthOf(// " ++ [128512]%N ++ runes_of_ascii " emoji
-Header )
-char[ 65535 ]
-    u128	@calculatedFrom(// " ++ [128512]%N ++ runes_of_ascii " emoji
-""" ++ [233]%N ++ runes_of_ascii "t" ++ [233]%N ++ runes_of_ascii """
-)`// not a comment` , @tag( 0123456789
-)
-    @leftPad ( ' '	) @calculatedFrom( ""a	b"" )  repeat int Logon `// not a comment` ,
-    }")).
-Eval vm_compute in ("<<<M3737>>>" ++ check (runes_of_ascii "packet asx {
-    repeat falsey {
-        match lengthOf as T {
-            [42, 1, ""\" ++ [233]%N ++ runes_of_ascii """, ""// no comment"", """ ++ [28040; 24687]%N ++ runes_of_ascii """] : x,
-            4294967296 : matchKey,
-            7 : roots,
-            [
-                0123456789, 0123456789, 3, 0123456789, 65535,
-                ""// no comment"", ""a\\"", ""a	b""
-            ] : metadata,
-            [65535] : asx,
-            [4294967296, ""a	b"", ""a\\""] : x,
+Eval vm_compute in ("<<<M335>>>" ++ check (runes_of_ascii "packet Logon//x
+{ @calculatedFrom( ""a	b""
+    ) repeat options1 , @calculatedFrom(
+    ""a\\"") // c
+char[] options1 `it's`, @tag(4294967296 ) repeat Logon
+{match trueish as
+    u128
+    {""x y""
+    //	t
+    :// c
+i64_
+    ,
+    [ 4294967296 , 007, 10 ]: i8i8 , } ,
+//
+// @lengthOf(
+T	`u8 x,` ,repeat uint64 T `u8 x,`
+, } , } options // @lengthOf(
+{u128 =// trailing space 
+'0'tag =  true
+    ; Packet  = char[ 0123456789 ] ;
+    Foo = 007 body
+= 3 ;
+    } packet i64_
+{ }
+//x
+")).
+Eval vm_compute in ("<<<M767>>>" ++ check (runes_of_ascii "  root packet x_y_z{ @rightPad (  )repeat char[] int `tab	here`//x
+, @calculatedFrom( ""// no comment"" )
+    // c
+    pack
+, char[
+1 // `tick` ""quote"" 'q'
+]
+int	@calculatedFrom(
+""" ++ [28040; 24687]%N ++ runes_of_ascii """ ) , MetaDataX a1 ,Z9_
+{u16 pack, char[
+0]
+options1, repeat stringy{ /// triple
+i8i8 @lengthOf( int
+    ) , zchar packetx , } ,Packet`// not a comment`
+, } ,
+@rightPad ( ' ' ) uint64 zchar `" ++ [28040; 24687; 31867; 22411]%N ++ runes_of_ascii "` , /// triple
+u16 Header
+    `crlf
+line`,	}options{packetx=  false ;
+    }
+")).
+Eval vm_compute in ("<<<M4373>>>" ++ check (runes_of_ascii "MetaData Logon {
+    zchar[3] a1 `" ++ [28040; 24687; 31867; 22411]%N ++ runes_of_ascii "`,
+    char[007] MetaDataX `a\`,
+}
+
+root packet pack {
+}
+
+packet i64_ {
+    @lengthOf(chars)
+    len {
+        uint8 rootA `doc`,
+        string_ `crlf
+                line`,//	t
+        match charz as Foo {
+            42 : options1,
+            [255] : charz,
         },
     },
-    @leftPad()
-    falsey T,
-}")).
-Eval vm_compute in ("<<<M369>>>" ++ check (runes_of_ascii "
-MetaData
-// packet A { u8 x, }
-// @lengthOf(
-calculatedFrom {  zchar[
-    3 ] u8x
-, i32 o
-,
-    zchar[42
-//x
-// @lengthOf(
-]
-leftPad ,roots u
-//x
-//
-, }
-packet
-    trueish{ @leftPad
-    ( )asx
+    roots repeatCount `two words`,
     //	t
-    @lengthOf(
-i8i8
-) ,
-    @rightPad ( '\x00' )tag
-@lengthOf( Packet ) , Pad
-    // `tick` ""quote"" 'q'
-    options1 `doc` ,	@lengthOf(
-Header) match Z9_
+    string Logon @calculatedFrom(""a\""b""),
+    @calculatedFrom(""a\\"")
+    Z9_,
+}//x")).
+Eval vm_compute in ("<<<M716>>>" ++ check (runes_of_ascii "
+root packet Z9_ { asx
+// trailing space 
+//
+@lengthOf(u8x  )
+    `crlf
+line`
+    , i16 trueish `tab	here`  , i8 metadata , @calculatedFrom(
+""// no comment"" // a // b
+) Z9_ `tab	here`
+, @calculatedFrom( """" )	A x
+    ,
+    Logon Foo ,
+    repeat  zchar[	3
+]// `tick` ""quote"" 'q'
+pack , } MetaData u8x {} packet x_y_z
+    {
+    @rightPad ( ' ')
+    repeat
+    crc  asx /// triple
+, // " ++ [128512]%N ++ runes_of_ascii " emoji
+}
+    options {
+body =
+u32 ; }")).
+Eval vm_compute in ("<<<M608>>>" ++ check (runes_of_ascii "packet asx{repeat
+    falsey {  match lengthOf as T {
+    [""\" ++ [233]%N ++ runes_of_ascii """
+    ,42 ,  1
+, ""// no comment"", """ ++ [28040; 24687]%N ++ runes_of_ascii """]
+    :	x , 4294967296 :matchKey ,
+7 :roots
+    ,[ // `tick` ""quote"" 'q'
+0123456789
+,// " ++ [128512]%N ++ runes_of_ascii " emoji
+""// no comment""
+    // trailing space 
+    ,0123456789 ,
+3	, 0123456789
+    , 65535, ""a\\"" , ""a	b"" ]
+    : metadata , [ 65535 ] : asx , [""a	b"",
+""a\\"" , 4294967296	] : x ,	}//
+, } , @leftPad (  ) falsey T ,	}
+")).
+Eval vm_compute in ("<<<M540>>>" ++ check (runes_of_ascii "packet asx {  @tag( 7 ) repeat	u16  _x , //
+@calculatedFrom(""a	b"") string	a1`two words`
+    , A@calculatedFrom( ""abc"")`
+` ,//
+uint16 pack // a // b
+@calculatedFrom(  ""// no comment""
+),
+    // a // b
+    char[] tag  @lengthOf( u128 )
+`
+`
+    , string_
+@lengthOf( chars
+    )	, // " ++ [128512]%N ++ runes_of_ascii " emoji
+match Pad as  packetx {255 : u128 ,  } ,repeat // `tick` ""quote"" 'q'
+calculatedFrom float `
+`	,	}
+")).
+Eval vm_compute in ("<<<M964>>>" ++ check (runes_of_ascii "
+root packet
+asx { @calculatedFrom( ""CRC32""
+// " ++ [27880; 37322]%N ++ runes_of_ascii "
+// packet A { u8 x, }
+)match  chars as
+trueish {
+""""	: T	, 42
+    : f32a , ""{,}"" :	calculatedFrom 255  :// c
+A ,	} ,
+    }root packet  matchKey { u16 len@lengthOf( metadata )	`// not a comment` , }  options {
+Z9_ =
+    ""it's"" packetx= """ ++ [28040; 24687]%N ++ runes_of_ascii """	; falsey
+// a // b
 // c
-/// triple
-as zchar
-{ 4294967296 : o ,
-    } ,  } /// triple")).
-Eval vm_compute in ("<<<M3583>>>" ++ check (runes_of_ascii "  options//	t
-    { BodyLength=	""{,}"" 
-tag
-	=  ""// no comment"" ;
-}
-    options
-{
-charz=
-    '\x00' 
-; 	 // a // b
-  repeatCount	=  255 // c
-;
-_x=
-
-""" ++ [128512]%N ++ runes_of_ascii """
-; 
-Foo
-= '0'
-    a1
-=
-
-'0' 
-    //x
-	//
-    	}
-root
-    packet
-
-falsey	{ 
-i64
-    packetx@lengthOf(
-    Header	//	t
-	)`" ++ [28040; 24687; 31867; 22411]%N ++ runes_of_ascii "` ,	len 
-@lengthOf(
-    roots 
-)
-    `a\` 
-,
-	zchar
-
-@lengthOf(  MetaDataX 
-//x
-)  `line1
-line2`	,
-
-    }	// packet A { u8 x, }")).
-Eval vm_compute in ("<<<M4208>>>" ++ check (runes_of_ascii "options {
-    LittleEndian = true;// c5
-    ArrayPrefixLenType = u64;// c9a
-    // c9b
-    FixedStringPadFromLeft = false;
-}
-
-packet Quote {
-}
-
-// c18
-root packet Order {
-    // c22
-    i64 Side2,
-    // c25
-    Quote,
-    // c27
-    u32 Px,// c30a
-    // c30b
-    match Px as Body {
-        [119, 147] : Quote,
-    },// c45a
-    // c45b
-    u16 Flags @calculatedFrom(""CRC32""),// c51a
-}// c52")).
-Eval vm_compute in ("<<<M4342>>>" ++ check (runes_of_ascii "options {
-    chars = '\x00'
-    metadata = true;
-    x_y_z = string;
-}
-
-packet Logon {
-    repeat char[10] packetx `" ++ [28040; 24687; 31867; 22411]%N ++ runes_of_ascii "`,
-}
-
-options {
-    stringy = 4294967296
-    As = ""x y"";
-    f32a = ' ';
-}
-
-packet chars {
-    @calculatedFrom(""x y"")
-    packetx @calculatedFrom(""" ++ [128512]%N ++ runes_of_ascii """),
-    i8i8 @lengthOf(u),
-    @rightPad(' ')
-    @lengthOf(msg_type)
-    @lengthOf(Z9_)
-    T stringy,
-}")).
+= //
+char[ 0 ] ;MetaDataX = ""a\\""
+    A = true ;
+    }
+")).
 Eval vm_compute in ("<<<M235>>>" ++ check (runes_of_ascii "root //x
 packet
 rootA
@@ -1639,425 +1445,124 @@ MetaData u8x {i32 rootA
 int64 Foo `// not a comment` ,
 }
 ")).
-Eval vm_compute in ("<<<M858>>>" ++ check (runes_of_ascii "
-root packet f32a {	@leftPad
-( '0' ) @tag( 00 )
-@rightPad( '0'
-)falsey tag//x
-, /// triple
-float32 packetx`tab	here`
-    , Pad
-    , @tag( 255
-)
-    char[]T`" ++ [28040; 24687; 31867; 22411]%N ++ runes_of_ascii "` , repeat char[ 4294967296  ]
-    Logon  , repeat zchar[ // @lengthOf(
-007 ]x
-`
-`
-    //	t
-    ,
-uint64 uint8x `two words`
+Eval vm_compute in ("<<<M9>>>" ++ check (runes_of_ascii "options { i64_ =// a // b
+""it's"" ;
+Foo =  ""\n""	; x_y_z = '\x00';
+len= '0'
+}	root packet Packet
+{ @tag(  0)  match	crc
+as A// " ++ [27880; 37322]%N ++ runes_of_ascii "
+{[ ""`tick`"",
+    ""`tick`""
+// @lengthOf(
+// a // b
+, ""packet""
 ,
-    Z9_ @lengthOf( f32a  )
-,	} // packet A { u8 x, }")).
-Eval vm_compute in ("<<<M4334>>>" ++ check (runes_of_ascii "
-packet
-
-    msg_type{ 
-charz  ``
-
-,
-	Logon @lengthOf(
-As
-    ) // " ++ [128512]%N ++ runes_of_ascii " emoji
-,	zchar[
-10  ]
-Packet
-,
-
-@rightPad(
-
-' ' 	 // " ++ [128512]%N ++ runes_of_ascii " emoji
-    )
-repeat
-
-As
-{
-
-    char[ 
-007
-
-] int  @lengthOf(
-
-    roots//	t
-),
-int64
-	u8x	`" ++ [233]%N ++ runes_of_ascii "`
-, 
-zchar
-	// `tick` ""quote"" 'q'
-	@calculatedFrom(
-""" ++ [233]%N ++ runes_of_ascii "t" ++ [233]%N ++ runes_of_ascii """
-)
-	,
-}  // a // b
-
-  ,	/// triple
-      }")).
-Eval vm_compute in ("<<<M1020>>>" ++ check (runes_of_ascii "packet
-stringy { string_
-    , }
-packet
-rootA
-    { f32
-A @lengthOf( lengthOf ) , @calculatedFrom(	""" ++ [233]%N ++ runes_of_ascii "t" ++ [233]%N ++ runes_of_ascii """ )zchar[ 4294967296// " ++ [27880; 37322]%N ++ runes_of_ascii "
-] float @lengthOf( Foo ) ,
-@rightPad (
-    '0' )
-// `tick` ""quote"" 'q'
-// packet A { u8 x, }
-string
-body
-`" ++ [233]%N ++ runes_of_ascii "` ,char[ 42
-//	t
-// packet A { u8 x, }
-] Logon @lengthOf( uint8x ) `u8 x,` , }
-")).
-Eval vm_compute in ("<<<M3335>>>" ++ check (runes_of_ascii "// top
-packet
-    // c0
-calculatedFrom
-    // c1
-{
-    // c2
-@tag(
-    // c3
-4294967296
-    // c4
-)
-    // c5
-u
-    // c6
-msg_type
-    // c7
-,
-    // c8
-char[
-    // c9
-3
-    // c10
-]
-    // c11
-crc
-    // c12
-@lengthOf(
-    // c13
-len
-    // c14
-)
-    // c15
-`u8 x,`
-    // c16
-,
-    // c17
-}
-    // c18
-")).
-Eval vm_compute in ("<<<M1580>>>" ++ check (runes_of_ascii "root packet Foo // " ++ [128512]%N ++ runes_of_ascii " emoji
-{ } options {
-    // a // b
-    tag // `tick` ""quote"" 'q'
-= //	t
-""""
-    ; u8x = zchar[0  ] }
-MetaData
-    int {zchar[ 10]
-lengthOf	`` , i64 u8x`// not a comment` ,MetaDataX pack// `tick` ""quote"" 'q'
-`crlf
-line`
-, Logon Logon charz `crlf
-line`
+    ""CRC32""
     ,
-    // a // b
-    }
-")).
-Eval vm_compute in ("<<<M1615>>>" ++ check (runes_of_ascii "root packet Foo // " ++ [128512]%N ++ runes_of_ascii " emoji
-{ } options {
-    // a // b
-    tag // `tick` ""quote"" 'q'
-= //	t
-""""
-    ; u8x'1' = zchar[0  ] }
-MetaData
-    int {zchar[ 10]
-lengthOf	`` , i64 u8x`// not a comment` ,MetaDataX pack// `tick` ""quote"" 'q'
-`crlf
-line`
-, Logon charz `crlf
-line`
-    ,
-    // a // b
-    }
-")).
-Eval vm_compute in ("<<<M1501>>>" ++ check (runes_of_ascii "root packet Foo // " ++ [128512]%N ++ runes_of_ascii " emoji
-{ } options {
-    // a // b
-    tag // `tick` ""quote"" 'q'
-= //	t
-""""
-    ; u8x = zchar[0  ] }
-MetaData
-    { int zchar[ 10]
-lengthOf	`` , i64 u8x`// not a comment` ,MetaDataX pack// `tick` ""quote"" 'q'
-`crlf
-line`
-, Logon charz `crlf
-line`
-    ,
-    // a // b
-    }
-")).
-Eval vm_compute in ("<<<M1506>>>" ++ check (runes_of_ascii "root packet Foo // " ++ [128512]%N ++ runes_of_ascii " emoji
-{ } options {
-    // a // b
-    tag // `tick` ""quote"" 'q'
-= //	t
-""""
-    ; u8x = zchar[0  ] }
-MetaData
-    int zchar[{ 10]
-lengthOf	`` , i64 u8x`// not a comment` ,MetaDataX pack// `tick` ""quote"" 'q'
-`crlf
-line`
-, Logon charz `crlf
-line`
-    ,
-    // a // b
-    }
-")).
-Eval vm_compute in ("<<<M1504>>>" ++ check (runes_of_ascii "root packet Foo // " ++ [128512]%N ++ runes_of_ascii " emoji
-{ } options {
-    // a // b
-    tag // `tick` ""quote"" 'q'
-= //	t
-""""
-    ; u8x = zchar[0  ] }
-MetaData
-    int zchar[ 10]
-lengthOf	`` , i64 u8x`// not a comment` ,MetaDataX pack// `tick` ""quote"" 'q'
-`crlf
-line`
-, Logon charz `crlf
-line`
-    ,
-    // a // b
-    }
-")).
-Eval vm_compute in ("<<<M1527>>>" ++ check (runes_of_ascii "root packet Foo // " ++ [128512]%N ++ runes_of_ascii " emoji
-{ } options {
-    // a // b
-    tag // `tick` ""quote"" 'q'
-= //	t
-""""
-    ; u8x = zchar[0  ] }
-MetaData
-    int {zchar[ 10]
-int8	`` , i64 u8x`// not a comment` ,MetaDataX pack// `tick` ""quote"" 'q'
-`crlf
-line`
-, Logon charz `crlf
-line`
-    ,
-    // a // b
-    }
-")).
-Eval vm_compute in ("<<<M773>>>" ++ check (runes_of_ascii "
-packet u8x { int32
-u , @leftPad
-    ( '\x00' )	int16
-    /// triple
-    leftPad
-    ,@lengthOf(
-    stringy ) uint32 BodyLength@calculatedFrom(
-""" ++ [28040; 24687]%N ++ runes_of_ascii """// a // b
-)
-    `say ""hi""` ,	} root packet  msg_type {float64  Foo ,string repeatCount
-    ,} root packet
-    repeatCount {
-    }")).
-Eval vm_compute in ("<<<M4443>>>" ++ check (runes_of_ascii "  root
-	packet
-
-    stringy
-	{ match uint8x as roots
-
-{
-
-    [
-    ""a\""b"" ]  :
-rootA	,
-	42 :
-	int
-	, 
-""a\\"":
-Logon
-	,
-
-    [7
-    ] :
-o	, 
-65535
-
-:
-x } 
-      // `tick` ""quote"" 'q'
-	// a // b
-
-	,@tag( 	 // " ++ [128512]%N ++ runes_of_ascii " emoji
-
-65535)
-	string options1  @lengthOf( Logon
-),}")).
-Eval vm_compute in ("<<<M658>>>" ++ check (runes_of_ascii "options  {  matchKey =
-    007;pack
-    = false
-; // `tick` ""quote"" 'q'
-float =	int8 options1 = char[]x_y_z
-    =
-    //
-    """" ; } options
-{ Header = // " ++ [128512]%N ++ runes_of_ascii " emoji
-float64//
-;pack // `tick` ""quote"" 'q'
-= float32
-; string_
-    = char[ 42 ] Logon= 00	;}
-//	t
-")).
-Eval vm_compute in ("<<<M316>>>" ++ check (runes_of_ascii "packet  crc {calculatedFrom
-    {string_ u
-,
-rootA
-    calculatedFrom , } // packet A { u8 x, }
-,
-    @lengthOf( len
-    )match //x
-roots
-    /// triple
-    as x{""// no comment""
-:
-    msg_type
-    ,
-7 : calculatedFrom ,} ,} packet zchar
-{
-    }
-
-")).
-Eval vm_compute in ("<<<M1578>>>" ++ check (runes_of_ascii "root packet Foo // " ++ [128512]%N ++ runes_of_ascii " emoji
-{ } options {
-    // a // b
-    tag // `tick` ""quote"" 'q'
-= //	t
-""""
-    ; u8x = zchar[0  ] }
-MetaData
-    int {zchar[ 10]
-lengthOf	`` , i64 u8x`// not a comment` ,MetaDataX pack// `tick` ""quote"" 'q'
-`crlf
-line`")).
-Eval vm_compute in ("<<<M4493>>>" ++ check (runes_of_ascii "MetaData
-
-    leftPad { char[]
-	x_y_z 
-`say ""hi""`
-
-    ,  }  options
-    {  string_ 
-// " ++ [128512]%N ++ runes_of_ascii " emoji
-		=
-
-""CRC32"" }
-options{ _x  =
-	""1""; 
-Header
-	= f64  ; } packet	lengthOf
-
-    {  } packet  x_y_z
-
-{ 
-    //x
 // " ++ [27880; 37322]%N ++ runes_of_ascii "
-		} 	 //
-")).
-Eval vm_compute in ("<<<M1246>>>" ++ check (runes_of_ascii "root
-    //
-    packet Foo {float32 Logon `doc` , } MetaData x_y_z
-    // `tick` ""quote"" 'q'
-    { Header
-Z9_ `line1
-line2`  , o crc ,// " ++ [27880; 37322]%N ++ runes_of_ascii "
-string //x
-Header , _x packetx`say ""hi""`,} packet stringy {
-uint8 i64_ ,
-    }
-
-")).
-Eval vm_compute in ("<<<M2338>>>" ++ check (runes_of_ascii "MetaData Packet { }packet	asx  { @lengthOf( asx) falsey`crlf
-line`
+//
+""\n""
+,""a\\""
 ,
-    }
-    packet x	{uint32// @lengthOf(
-rootA	,u32 options1 `say ""hi""` , @tag( @tag(
-    )// packet A { u8 x, }
-msg_type @lengthOf(
-stringy	)	, }
-
+    255 ]
+    : T // c
+} // @lengthOf(
+, repeat float64 x,
+zchar[ 00 // `tick` ""quote"" 'q'
+] chars,
+} //	t")).
+Eval vm_compute in ("<<<M589>>>" ++ check (runes_of_ascii "options {
+    MetaDataX = ""it's""
+    ; Header
+// " ++ [128512]%N ++ runes_of_ascii " emoji
+// " ++ [128512]%N ++ runes_of_ascii " emoji
+= // packet A { u8 x, }
+true ; u8x
+    =
+false; stringy= """ ++ [233]%N ++ runes_of_ascii "t" ++ [233]%N ++ runes_of_ascii """  }
+MetaData i64_{ a1 // trailing space 
+_x // a // b
+, u16 charz , char[ 1 ]	u `doc` , uint64 i8i8 ,/// triple
+o /// triple
+uint8x	,
+char[]
+Pad ,}
+packet _x{  }
+options { // " ++ [128512]%N ++ runes_of_ascii " emoji
+u= false }
 ")).
-Eval vm_compute in ("<<<M2287>>>" ++ check (runes_of_ascii "MetaData Packet { }packet	asx  { @lengthOf( asx) falsey`crlf
-line`
+Eval vm_compute in ("<<<M4201>>>" ++ check (runes_of_ascii "packet falsey {
+    //	t
+    _x {
+        T @calculatedFrom(""" ++ [28040; 24687]%N ++ runes_of_ascii """),
+        int64 roots,
+        match float as a1 {
+            1 : falsey,
+            [
+                ""CRC32"", ""a\""b"", 255, 65535, 42,
+                0123456789
+            ] : pack,
+        },
+    },
+    pack {
+        falsey,
+    },
+    packetx,
+}")).
+Eval vm_compute in ("<<<M630>>>" ++ check (runes_of_ascii "root packet As { match pack as body{ [3 , ""\" ++ [233]%N ++ runes_of_ascii """ ,255, 007	, 00
+// trailing space 
+//	t
 ,
-    }
-    packet {	x uint32// @lengthOf(
-rootA	,u32 options1 `say ""hi""` , @tag( 7
-    )// packet A { u8 x, }
-msg_type @lengthOf(
-stringy	)	, }
-
-")).
-Eval vm_compute in ("<<<M2297>>>" ++ check (runes_of_ascii "MetaData Packet { }packet	asx  { @lengthOf( asx) falsey`crlf
+007
+    ]
+    :Pad ,}
+    //x
+    ,
+@lengthOf(
+    charz )
+@rightPad ( '0') @calculatedFrom( ""1"" ) repeatCount BodyLength  ,	@rightPad ('\x00' ) zchar[ 00 ] string_
+`" ++ [28040; 24687; 31867; 22411]%N ++ runes_of_ascii "` , crc @lengthOf(
+    msg_type )
+, //x
+}")).
+Eval vm_compute in ("<<<M1482>>>" ++ check (runes_of_ascii "root packet Foo // " ++ [128512]%N ++ runes_of_ascii " emoji
+{ } options {
+    // a // b
+    tag // `tick` ""quote"" 'q'
+= //	t
+""""
+    ; u8x = zchar[""" ++ [233]%N ++ runes_of_ascii "t" ++ [233]%N ++ runes_of_ascii """  ] }
+MetaData
+    int {zchar[ 10]
+lengthOf	`` , i64 u8x`// not a comment` ,MetaDataX pack// `tick` ""quote"" 'q'
+`crlf
 line`
-,
-    }
-    packet x	{rootA// @lengthOf(
-uint32	,u32 options1 `say ""hi""` , @tag( 7
-    )// packet A { u8 x, }
-msg_type @lengthOf(
-stringy	)	, }
-
-")).
-Eval vm_compute in ("<<<M2340>>>" ++ check (runes_of_ascii "MetaData Packet { }packet	asx  { @lengthOf( asx) falsey`crlf
+, Logon charz `crlf
 line`
-,
+    ,
+    // a // b
     }
-    packet x	{uint32// @lengthOf(
-rootA	,u32 options1 `say ""hi""` , @tag( 7
-    // packet A { u8 x, }
-msg_type @lengthOf(
-stringy	)	, }
-
 ")).
-Eval vm_compute in ("<<<M2216>>>" ++ check (runes_of_ascii "MetaData  { }packet	asx  { @lengthOf( asx) falsey`crlf
+Eval vm_compute in ("<<<M1480>>>" ++ check (runes_of_ascii "root packet Foo // " ++ [128512]%N ++ runes_of_ascii " emoji
+{ } options {
+    // a // b
+    tag // `tick` ""quote"" 'q'
+= //	t
+""""
+    ; u8x = zchar[0 0  ] }
+MetaData
+    int {zchar[ 10]
+lengthOf	`` , i64 u8x`// not a comment` ,MetaDataX pack// `tick` ""quote"" 'q'
+`crlf
 line`
-,
+, Logon charz `crlf
+line`
+    ,
+    // a // b
     }
-    packet x	{uint32// @lengthOf(
-rootA	,u32 options1 `say ""hi""` , @tag( 7
-    )// packet A { u8 x, }
-msg_type @lengthOf(
-stringy	)	, }
-
 ")).
-Eval vm_compute in ("<<<M1573>>>" ++ check (runes_of_ascii "root packet Foo // " ++ [128512]%N ++ runes_of_ascii " emoji
+Eval vm_compute in ("<<<M1623>>>" ++ check (runes_of_ascii "root packet Foo // " ++ [128512]%N ++ runes_of_ascii " emoji
 { } options {
     // a // b
     tag // `tick` ""quote"" 'q'
@@ -2066,303 +1571,515 @@ Eval vm_compute in ("<<<M1573>>>" ++ check (runes_of_ascii "root packet Foo // "
     ; u8x = zchar[0  ] }
 MetaData
     int {zchar[ 10]
-lengthOf	`` , i64 u8x`// not a comment` ,MetaDataX pack")).
-Eval vm_compute in ("<<<M1189>>>" ++ check (runes_of_ascii "options {
-}root packet x_y_z { //
-int32 f32a
-    `u8 x,` , @calculatedFrom( ""{,}"" ) Header @calculatedFrom( """" ) ,//	t
-zchar[
-4294967296] //x
-roots@lengthOf( string_
-)
-    , }packet rootA
-{
-    }
-")).
-Eval vm_compute in ("<<<M401>>>" ++ check (runes_of_ascii "MetaData// " ++ [27880; 37322]%N ++ runes_of_ascii "
-Z9_ {
-}root
-    packet leftPad{	@lengthOf( Pad ) @lengthOf(lengthOf
-)
-    @tag( 4294967296 ) o @lengthOf( i64_ )// a // b
-,
-}
-options
-// `tick` ""quote"" 'q'
-//x
-{
-    //
-    }")).
-Eval vm_compute in ("<<<M34>>>" ++ check (runes_of_ascii "options{// `tick` ""quote"" 'q'
-len // `tick` ""quote"" 'q'
-= """ ++ [28040; 24687]%N ++ runes_of_ascii """;
-options1 = // " ++ [27880; 37322]%N ++ runes_of_ascii "
-int32 zchar	=
-    ""1"" ;float
-= true tag =""" ++ [28040; 24687]%N ++ runes_of_ascii """ ; } MetaData u128 { msg_type i8i8 `doc` ,	o body
-, }
-")).
-Eval vm_compute in ("<<<M579>>>" ++ check (runes_of_ascii "packet uint8x {f32 Header @calculatedFrom( ""CRC32""
-),
-    }MetaData  roots { string f32a , }MetaData int  { options1 string_
-    , // `tick` ""quote"" 'q'
-f64
-float,
-    }
-")).
-Eval vm_compute in ("<<<M4467>>>" ++ check (runes_of_ascii "// packet A { u8 x, }
-packet BodyLength {
-    @tag(255)
-    repeat uint64 f32a,
-}
-
-packet chars {
-}
-
-MetaData zchar {
-    char[] tag `a\`,
-    body Logon `tab	here`,
-}")).
-Eval vm_compute in ("<<<M3615>>>" ++ check (runes_of_ascii "
-packet
-A
-    {
-
-match k
-
-    as	n
-{
-    [
-    1 ,
-	22
-,
-    007 , 4
-
-    ,  5
-
+lengthOf	`` , i64 u8x`// not a comment` ,MetaDataX pack// `tick` ""quote"" 'q'
+`crlf
+line`
+, caf" ++ [233]%N ++ runes_of_ascii "_1 charz `crlf
+line`
     ,
-
-    66 ,
-	7  ,	8
-    , 9
-	,	10
-
-    ,11 ] 
-:
-
-B , 2	: 
-C },}")).
-Eval vm_compute in ("<<<M4020>>>" ++ check (runes_of_ascii "packet FooBar {
-    // c2
-    u8 a,
-}// c6
-
-packet foo_bar {
-    // c9
-    u16 b,// c12a
+    // a // b
+    }
+")).
+Eval vm_compute in ("<<<M1566>>>" ++ check (runes_of_ascii "root packet Foo // " ++ [128512]%N ++ runes_of_ascii " emoji
+{ } options {
+    // a // b
+    tag // `tick` ""quote"" 'q'
+= //	t
+""""
+    ; u8x = zchar[0  ] }
+MetaData
+    int {zchar[ 10]
+lengthOf	`` , i64 u8x`// not a comment` ,MetaDataX `crlf
+line`// `tick` ""quote"" 'q'
+pack
+, Logon charz `crlf
+line`
+    ,
+    // a // b
+    }
+")).
+Eval vm_compute in ("<<<M4169>>>" ++ check (runes_of_ascii "packet As {
+    // packet A { u8 x, }
+    repeatCount @lengthOf(Pad) `" ++ [28040; 24687; 31867; 22411]%N ++ runes_of_ascii "`,// c
 }
 
-root packet R {
-    FooBar,// c19
-    foo_bar,// c21
-}// c22")).
-Eval vm_compute in ("<<<M1373>>>" ++ check (runes_of_ascii "packet
-As { char[
-0123456789]
-    repeatCount
-    // `tick` ""quote"" 'q'
-    , u32 _x `// not a comment` , @tag( 3 )repeat i64 len `say ""hi""`,  }
-")).
-Eval vm_compute in ("<<<M4372>>>" ++ check (runes_of_ascii "packet A {
-    match k as n {
-        [
-            1, 22, 4, 5, 7,
-            8, 10, ""c c"", ""f"", ""i""
-        ] : B,
-        2 : C,
-    },
+MetaData uint8x {
+    char[3] o `say ""hi""`,
+    uint16 A,
+    leftPad matchKey,
+    char[] As `line1
+        line2`,
+    u32 string_,/// triple
+    metadata len,
+}
+
+packet options1 {
+    metadata options1,
 }")).
-Eval vm_compute in ("<<<M3419>>>" ++ check (runes_of_ascii "// top
-root // c0
-packet P
-    // c2
-{ // c3
-repeat
-    // c4
-char cs
-    // c6
-, u8 x // c9a
-  // c9b
-, // c10a
-  // c10b
+Eval vm_compute in ("<<<M3483>>>" ++ check (runes_of_ascii "packet A {
+    u8 a,
 }
-    // c11
+packet B {
+    u16 b,
+}
+packet C {
+    u32 c,
+}
+root packet M {
+    u16 Kc, u16 Kb, u16 Ka,
+    match Kc as X {
+        9 : A,
+        10 : B,
+    },
+    match Kb as Y {
+        2 : C,
+        1 : A,
+    },
+    match Ka as Z {
+        1 : B,
+    },
+    A, B, C,
+}
 ")).
-Eval vm_compute in ("<<<M1626>>>" ++ check (runes_of_ascii "root root packet /// triple
+Eval vm_compute in ("<<<M993>>>" ++ check (runes_of_ascii "packet chars // a // b
+{ }
+packet int
+    { options1 // " ++ [128512]%N ++ runes_of_ascii " emoji
+{ repeat int32 u ,char[] Pad `" ++ [28040; 24687; 31867; 22411]%N ++ runes_of_ascii "`, },
+    repeat char[] T
+/// triple
+//	t
+,	match u128 as Packet {
+""\n"": MetaDataX , ""\n""
+    :
+falsey
+    ""a	b""
+:
+    i8i8 ,""it's"" : options1	,""`tick`"":
+pack , ""\" ++ [233]%N ++ runes_of_ascii """:int  , }	, }
+")).
+Eval vm_compute in ("<<<M536>>>" ++ check (runes_of_ascii "root packet A  { @rightPad ( ) char[ 0
+// @lengthOf(
+// trailing space 
+] Logon
+    //
+    @calculatedFrom( ""abc""
+)
+    `line1
+line2` , @calculatedFrom(
+""// no comment"" )repeat f64 u128// " ++ [27880; 37322]%N ++ runes_of_ascii "
+`line1
+line2`// @lengthOf(
+, }	options  {BodyLength =	' ' packetx =
+""abc"" }")).
+Eval vm_compute in ("<<<M106>>>" ++ check (runes_of_ascii "// " ++ [27880; 37322]%N ++ runes_of_ascii "
+options //x
+{ msg_type
+//x
+//	t
+= '0'} packet _x { // `tick` ""quote"" 'q'
+@tag( 00  ) @tag(1)	char[] a1
+,
+// packet A { u8 x, }
+/// triple
+} packet float
+//	t
+// " ++ [128512]%N ++ runes_of_ascii " emoji
+{ }
+//	t
+// packet A { u8 x, }
+MetaData
+    // `tick` ""quote"" 'q'
+    Foo {
+}")).
+Eval vm_compute in ("<<<M59>>>" ++ check (runes_of_ascii "packet _x { Packet { chars
+    Logon
+,int8 float , i64 rootA `" ++ [233]%N ++ runes_of_ascii "` ,} /// triple
+,@calculatedFrom(
+""abc"" )
+    x_y_z
+{ leftPad // trailing space 
+charz
+`a\` ,i32 metadata `say ""hi""` ,} , charz rootA `u8 x,`, }  root// " ++ [128512]%N ++ runes_of_ascii " emoji
+packet f32a//
+{ }
+")).
+Eval vm_compute in ("<<<M312>>>" ++ check (runes_of_ascii "options {
+f32a= 3	;Logon
+    =
+    ""x y"";
+len
+=
+10	}packet string_ {@lengthOf( MetaDataX ) // c
+int32 f32a , _x @lengthOf( rootA) ,@rightPad ( ) stringy ,
+@tag( 0123456789 )
+    // a // b
+    repeatCount @calculatedFrom( """ ++ [128512]%N ++ runes_of_ascii """
+    ), }
+")).
+Eval vm_compute in ("<<<M2246>>>" ++ check (runes_of_ascii "MetaData Packet { }packet	asx  { @lengthOf( @lengthOf( asx) falsey`crlf
+line`
+,
+    }
+    packet x	{uint32// @lengthOf(
+rootA	,u32 options1 `say ""hi""` , @tag( 7
+    )// packet A { u8 x, }
+msg_type @lengthOf(
+stringy	)	, }
+
+")).
+Eval vm_compute in ("<<<M4159>>>" ++ check (runes_of_ascii "MetaData Packet {
+}
+
+packet asx {
+    @lengthOf(asx)
+    falsey `crlf
+        line`,
+}
+
+packet x {
+    uint32 rootA,
+    u32 options1 `say ""hi""`,
+    @tag(7)
+    // packet A { ''u8 x, }
+    msg_type @lengthOf(stringy),
+}")).
+Eval vm_compute in ("<<<M2276>>>" ++ check (runes_of_ascii "MetaData Packet { }packet	asx  { @lengthOf( asx) falsey`crlf
+line`
+,
+    } }
+    packet x	{uint32// @lengthOf(
+rootA	,u32 options1 `say ""hi""` , @tag( 7
+    )// packet A { u8 x, }
+msg_type @lengthOf(
+stringy	)	, }
+
+")).
+Eval vm_compute in ("<<<M3822>>>" ++ check (runes_of_ascii "MetaData Packet {
+}
+
+packet asx {
+    @lengthOf(asx)
+    falsey `crlf
+        line`,
+}
+
+packet x {
+    uint32 rootA,
+    options1 `say ""hi""`,
+    @tag(7)
+    // packet A { u8 x, }
+    msg_type @lengthOf(stringy),
+}")).
+Eval vm_compute in ("<<<M2367>>>" ++ check (runes_of_ascii "MetaData Packet { }packet	asx  { @lengthOf( asx) falsey`crlf
+line`
+,
+    }
+    packet x	{uint32// @lengthOf(
+rootA	,u32 options1 `say ""hi""` , @tag( 7
+    )// packet A { u8 x, }
+msg_type @lengthOf(
+stringy	)	} ,
+
+")).
+Eval vm_compute in ("<<<M2250>>>" ++ check (runes_of_ascii "MetaData Packet { }packet	asx  { @lengthOf( ) falsey`crlf
+line`
+,
+    }
+    packet x	{uint32// @lengthOf(
+rootA	,u32 options1 `say ""hi""` , @tag( 7
+    )// packet A { u8 x, }
+msg_type @lengthOf(
+stringy	)	, }
+
+")).
+Eval vm_compute in ("<<<M2348>>>" ++ check (runes_of_ascii "MetaData Packet { }packet	asx  { @lengthOf( asx) falsey`crlf
+line`
+,
+    }
+    packet x	{uint32// @lengthOf(
+rootA	,u32 options1 `say ""hi""` , @tag( 7
+    )// packet A { u8 x, }
+{ @lengthOf(
+stringy	)	, }
+
+")).
+Eval vm_compute in ("<<<M4359>>>" ++ check (runes_of_ascii "packet metadata {
+    @rightPad('\x00')
+    @rightPad('\x00')
+    char[] _x @calculatedFrom(""a\\""),
+    repeat int64 roots,
+    repeat zchar[007] i64_,
+    match A as o {
+        ""1"" : Foo,
+    },//x
+}")).
+Eval vm_compute in ("<<<M4511>>>" ++ check (runes_of_ascii "
+root
+
+packet	stringy  { @tag( 7 ) @tag(1
+
+    ) 
+@rightPad
+( '\x00'
+	)
+	Foo  // `tick` ""quote"" 'q'
+	x
+	`crlf
+line`,
+	@calculatedFrom(
+""a	b""  )
+roots 	 //x
+	`it's`	// @lengthOf(
+
+	,  }
+")).
+Eval vm_compute in ("<<<M928>>>" ++ check (runes_of_ascii "  packet
+zchar {	match roots
+as stringy{[ //	t
+""`tick`"" ]	: calculatedFrom 10 :asx , """ ++ [233]%N ++ runes_of_ascii "t" ++ [233]%N ++ runes_of_ascii """
+    :
+    // `tick` ""quote"" 'q'
+    BodyLength , """ ++ [128512]%N ++ runes_of_ascii """ :options1 , 3:
+    repeatCount
+    , }
+,}")).
+Eval vm_compute in ("<<<M1337>>>" ++ check (runes_of_ascii "MetaData options1
+    { packetx x`
+`, //	t
+}
+    options{
+    x_y_z =true options1
+    = char[]// trailing space 
+;
+    body =
+65535/// triple
+lengthOf =	""it's"" ;
+x = '\x00'
+}
+")).
+Eval vm_compute in ("<<<M535>>>" ++ check (runes_of_ascii "options
+{ tag
+= string ; // `tick` ""quote"" 'q'
+chars = ""CRC32"" ;// packet A { u8 x, }
+body  = ""// no comment"" /// triple
+;}
+    packet string_{ // " ++ [128512]%N ++ runes_of_ascii " emoji
+matchKey A, }")).
+Eval vm_compute in ("<<<M98>>>" ++ check (runes_of_ascii "root // trailing space 
+packet Foo
+    // " ++ [128512]%N ++ runes_of_ascii " emoji
+    {
+    //x
+    char[] body`crlf
+line`, // " ++ [128512]%N ++ runes_of_ascii " emoji
+} options {
+    _x=  false
+    }
+packet BodyLength	{
+} 	 ")).
+Eval vm_compute in ("<<<M2349>>>" ++ check (runes_of_ascii "MetaData Packet { }packet	asx  { @lengthOf( asx) falsey`crlf
+line`
+,
+    }
+    packet x	{uint32// @lengthOf(
+rootA	,u32 options1 `say ""hi""` , @tag( 7
+    )")).
+Eval vm_compute in ("<<<M2339>>>" ++ check (runes_of_ascii "MetaData Packet { }packet	asx  { @lengthOf( asx) falsey`crlf
+line`
+,
+    }
+    packet x	{uint32// @lengthOf(
+rootA	,u32 options1 `say ""hi""` , @tag(")).
+Eval vm_compute in ("<<<M4450>>>" ++ check (runes_of_ascii "packet matchKey {
+    @calculatedFrom(""" ++ [28040; 24687]%N ++ runes_of_ascii """)
+    // " ++ [128512]%N ++ runes_of_ascii " emoji
+    match tag as Foo {
+        [""a\""b"", 255] : trueish,
+    },// a // b
+}
+
+options {
+}")).
+Eval vm_compute in ("<<<M249>>>" ++ check (runes_of_ascii "
+options {
+Header
+    // a // b
+    =
+false float
+=
+""abc"" ;
+i64_  = false ;}options // " ++ [128512]%N ++ runes_of_ascii " emoji
+{
+//
+//x
+repeatCount
+    =
+    ""a\\"";
+}
+//
+")).
+Eval vm_compute in ("<<<M3565>>>" ++ check (runes_of_ascii "packet calculatedFrom {
+    @tag(4294967296)
+    // c5
+    u msg_type,
+    // c8
+    char[3] crc @lengthOf(len) `u8 x,`,// c17
+}
+// c18")).
+Eval vm_compute in ("<<<M1698>>>" ++ check (runes_of_ascii "root packet /// triple
+rootA {	i32
+MetaDataX@calculatedFrom( ""CRC32"" ) `line1
+line2` , } MetaData BodyLength {
+u8 u8
+rootA, } // c")).
+Eval vm_compute in ("<<<M1724>>>" ++ check (runes_of_ascii "root packet /// trip" ++ [65279]%N ++ runes_of_ascii "le
 rootA {	i32
 MetaDataX@calculatedFrom( ""CRC32"" ) `line1
 line2` , } MetaData BodyLength {
 u8
 rootA, } // c")).
-Eval vm_compute in ("<<<M1180>>>" ++ check (runes_of_ascii "packet
-x{ @calculatedFrom("""" )repeat
-asx	{ //x
-char[ 255 ] x
-    ,}// packet A { u8 x, }
-,  }
-    options  { Pad = // " ++ [27880; 37322]%N ++ runes_of_ascii "
-1//	t
-}")).
-Eval vm_compute in ("<<<M1649>>>" ++ check (runes_of_ascii "root packet /// triple
+Eval vm_compute in ("<<<M1662>>>" ++ check (runes_of_ascii "root packet /// triple
 rootA {	i32
-@calculatedFrom(MetaDataX ""CRC32"" ) `line1
+MetaDataX@calculatedFrom( ""CRC32""  `line1
 line2` , } MetaData BodyLength {
 u8
 rootA, } // c")).
-Eval vm_compute in ("<<<M53>>>" ++ check (runes_of_ascii "  options{ u= ""a	b"" ; charz = true ;
-    matchKey =//x
-0123456789 u8x =
-char[]
-    // trailing space 
-    Packet
-=
-false ; }
-")).
-Eval vm_compute in ("<<<M814>>>" ++ check (runes_of_ascii "root
-    packet  T{  string zchar ,
-zchar[  3] stringy , } packet
-    rootA {
-    u {repeatCount@lengthOf(o)`{ , }` , } , }
-")).
-Eval vm_compute in ("<<<M3439>>>" ++ check (runes_of_ascii "packet B {
-    u8 a,
-}
-root packet P {
-    u8 K,
-    match K as Body {
-        1 : B,
-    },
-    u16 L @lengthOf(Body),
-}
-")).
-Eval vm_compute in ("<<<M1170>>>" ++ check (runes_of_ascii "options
-{// c
-stringy= ""1"" ;float = i64; // a // b
-calculatedFrom
-=
-    ""it's"" ; // c
-Z9_=""// no comment"" ; // " ++ [27880; 37322]%N ++ runes_of_ascii "
-}
-")).
-Eval vm_compute in ("<<<M1886>>>" ++ check (runes_of_ascii "packet
+Eval vm_compute in ("<<<M1816>>>" ++ check (runes_of_ascii "packet
     Pad // a // b
-{ i8i8 @calculated<From( ""a	b"") `u8 x,` ,
+{ i8i8 @calculatedFrom( ""a	b"") `u8 x,` `u8 x,` ,
 } options{ float// " ++ [128512]%N ++ runes_of_ascii " emoji
 = f64 i64_
 =//	t
 00 }
 ")).
-Eval vm_compute in ("<<<M1862>>>" ++ check (runes_of_ascii "packet
-    Pad // a // b
-{ i8i8 @calculatedFrom( ""a	b"") `u8 x,` ,
-} options{ float// " ++ [128512]%N ++ runes_of_ascii " emoji
-= f64 i64_
-00//	t
-= }
-")).
-Eval vm_compute in ("<<<M3052>>>" ++ check (runes_of_ascii "packet A {
-    match k as n {
-        ""x\
-y"" : B,
-        [""x\
-y"", 1] : C,
-        [1,2,3,4,5,""x\
-y""] : D,
-    },
-}")).
-Eval vm_compute in ("<<<M3694>>>" ++ check (runes_of_ascii "packet Logon {
-    @tag(42)
-    @rightPad(' ')
-    @leftPad()
-    repeat trueish {
-        string T,// c
-    },
-}")).
-Eval vm_compute in ("<<<M3028>>>" ++ check (runes_of_ascii "packet A {
-    u16 len @lengthOf(body) `a
+Eval vm_compute in ("<<<M3479>>>" ++ check (runes_of_ascii "packet
 
-b`,
-    u32 crc @calculatedFrom(""CRC32"") `a
-
-b`,
-    string body,
-}")).
-Eval vm_compute in ("<<<M4243>>>" ++ check (runes_of_ascii "// @lengthOf(
-options {
-}
-
-packet pack {
-}
-
-options {
-}
-
-MetaData msg_type {
-}
-
-root packet repeatCount {
-}")).
-Eval vm_compute in ("<<<M4416>>>" ++ check (runes_of_ascii "MetaData tag {
-    zchar[007] BodyLength ``,
-}
-
-root packet MetaDataX {
-    string_ @lengthOf(Header),
-}")).
-Eval vm_compute in ("<<<M3362>>>" ++ check (runes_of_ascii "packet calculatedFrom { @tag( 4294967296 ) u msg_type , char[ 3 ]
-// c
-crc @lengthOf( len ) `u8 x,` , }")).
-Eval vm_compute in ("<<<M3729>>>" ++ check (runes_of_ascii "
+    order_item 
+{
+	u8	a  ,	}
+root 
 packet
-
-A
-{ match
-    k
-as 
-n
+    new_order
 
     {
 
-[	""a""
-    , ""bb"",
-    ""c c""]
-    :
-B ,	2:  C
-}
+    order_item
+
     ,
-}
+
+    u8 x ,
+    }
 
 ")).
-Eval vm_compute in ("<<<M1111>>>" ++ check (runes_of_ascii "
-options { Foo=""`tick`""pack=
-    //
-    """ ++ [233]%N ++ runes_of_ascii "t" ++ [233]%N ++ runes_of_ascii """ ;leftPad
-= false ; int
-=char[] ; a1 =i16
-    ;
-}
-")).
-Eval vm_compute in ("<<<M1854>>>" ++ check (runes_of_ascii "packet
+Eval vm_compute in ("<<<M4429>>>" ++ check (runes_of_ascii "
+// c
+      packet 
+calculatedFrom {
+	@tag(
+
+4294967296)
+    u 
+msg_type , char[ 3
+
+]
+crc  @lengthOf( len )
+`u8 x,` ,
+	}")).
+Eval vm_compute in ("<<<M1880>>>" ++ check (runes_of_ascii "packet
     Pad // a // b
 { i8i8 @calculatedFrom( ""a	b"") `u8 x,` ,
 } options{ float// " ++ [128512]%N ++ runes_of_ascii " emoji
-=")).
-Eval vm_compute in ("<<<M3244>>>" ++ check (runes_of_ascii "packet Logon { @tag( 42 ) @rightPad ( ' ' ) @leftPad ( ) repeat trueish // c
-{ string T , } , }")).
-Eval vm_compute in ("<<<M1878>>>" ++ check (runes_of_ascii "packet
+= f64 i6''4_
+=//	t
+00 }
+")).
+Eval vm_compute in ("<<<M631>>>" ++ check (runes_of_ascii "MetaData // " ++ [128512]%N ++ runes_of_ascii " emoji
+Packet { char[] Pad
+    // " ++ [27880; 37322]%N ++ runes_of_ascii "
+    `tab	here`,
+} MetaData	u { roots stringy`doc` , }	options	{ }
+")).
+Eval vm_compute in ("<<<M1790>>>" ++ check (runes_of_ascii "packet
     Pad // a // b
-{ i8i8 @calculatedFrom( ""a	b"") `u8 x,` ,
-} options{ float// " ++ [128512]%N ++ runes_of_ascii " emoji")).
+ i8i8 @calculatedFrom( ""a	b"") `u8 x,` ,
+} options{ float// " ++ [128512]%N ++ runes_of_ascii " emoji
+= f64 i64_
+=//	t
+00 }
+")).
+Eval vm_compute in ("<<<M568>>>" ++ check (runes_of_ascii "root packet lengthOf { repeat char[
+0
+    ] i8i8 `" ++ [233]%N ++ runes_of_ascii "` ,
+MetaDataX@calculatedFrom( ""abc""
+/// triple
+// a // b
+),  }")).
+Eval vm_compute in ("<<<M512>>>" ++ check (runes_of_ascii "packet	f32a { i16 uint8x@lengthOf( a1 ) ,
+    /// triple
+    @lengthOf( body ) u64 u ,// packet A { u8 x, }
+}
+
+")).
+Eval vm_compute in ("<<<M3463>>>" ++ check (runes_of_ascii "root packet
+    // c1
+P {
+    // c3
+repeat string ss , // c7
+repeat // c8
+u16 // c9
+ns
+    // c10
+, } // c12
+")).
+Eval vm_compute in ("<<<M4105>>>" ++ check (runes_of_ascii "
+packet	o {@tag(	42
+)
+    // c
+	repeat
+
+    x { char[ 0123456789 ] i64_	,
+
+    }
+,
+	}options{
+    }")).
+Eval vm_compute in ("<<<M3029>>>" ++ check (runes_of_ascii "packet A {
+    Inner {
+        u8 x `a
+
+b`,
+        Deep {
+            u8 y `a
+
+b`,
+        },
+    },
+}")).
+Eval vm_compute in ("<<<M3369>>>" ++ check (runes_of_ascii "packet calculatedFrom { @tag( 4294967296 ) u msg_type , char[ 3 ] crc @lengthOf( len ) // c
+`u8 x,` , }")).
+Eval vm_compute in ("<<<M2981>>>" ++ check (runes_of_ascii "packet A {
+  match k as n {
+    [1, ""bb"", 007, ""d"", 5, ""f"", 7, ""h"", 9, ""j"", 11] : B
+    2 : C
+  },
+}")).
+Eval vm_compute in ("<<<M2960>>>" ++ check (runes_of_ascii "packet A {
+  match k as n {
+    [""a"", ""bb"", 007, ""d"", ""e"", 66, ""g"", ""h"", 9] : B,
+    2 : C
+  },
+}")).
+Eval vm_compute in ("<<<M2624>>>" ++ check (runes_of_ascii "packet A { @rightPad(' ') @lengthOf(b) @calculatedFrom(""c"") @tag(007) match k as n { 1 : B }, }")).
+Eval vm_compute in ("<<<M3245>>>" ++ check (runes_of_ascii "packet Logon { @tag( 42 ) @rightPad ( ' ' ) @leftPad ( ) repeat trueish
+// c
+{ string T , } , }")).
+Eval vm_compute in ("<<<M2972>>>" ++ check (runes_of_ascii "packet A {
+  match k as n {
+    [1, 22, ""c c"", 4, 5, ""f"", 7, 8, ""i"", 10] : B
+    2 : C
+  },
+}")).
 Eval vm_compute in ("<<<M554>>>" ++ check (runes_of_ascii "options { metadata = 7
     ;
 uint8x = 1 asx
@@ -2371,176 +2088,174 @@ Z9_	=' ';body
 =
     ""abc"" ;
     }")).
-Eval vm_compute in ("<<<M3768>>>" ++ check (runes_of_ascii "MetaData f32a {
-    u8 roots `doc`,
-    zchar[7] uint8x,
-    matchKey u128 `tab	here`,
-}")).
-Eval vm_compute in ("<<<M2039>>>" ++ check (runes_of_ascii "root
-packet crc
-    { f32a @calculatedFrom( """ ++ [233]%N ++ runes_of_ascii "t" ++ [233]%N ++ runes_of_ascii """ ?)
-    `say ""hi""`, lengthOf `` ,  }")).
-Eval vm_compute in ("<<<M3421>>>" ++ check (runes_of_ascii "options {
-    LittleEndian = true;
-}
-root packet P {
-    repeat char cs,
-    u8 x,
-}
+Eval vm_compute in ("<<<M282>>>" ++ check (runes_of_ascii "MetaData charz {
+Pad tag `two words` ,
+    u32 matchKey ,u128 Foo ,
+char[ 255 ] body ,}
 ")).
-Eval vm_compute in ("<<<M2024>>>" ++ check (runes_of_ascii "root
-packet crc
-    { f32a @calculatedFrom( """ ++ [233]%N ++ runes_of_ascii "t" ++ [233]%N ++ runes_of_ascii """ )
-    `say ""hi""`, lengthOf `` ,")).
-Eval vm_compute in ("<<<M3303>>>" ++ check (runes_of_ascii "packet o { @tag( 42
-// c
-) repeat x { char[ 0123456789 ] i64_ , } , } options { }")).
-Eval vm_compute in ("<<<M4373>>>" ++ check (runes_of_ascii "MetaData i64_ {
-    options1 x `crlf
-    line`,
-}
+Eval vm_compute in ("<<<M4080>>>" ++ check (runes_of_ascii "packet
 
-packet u {
-}// trailing space")).
-Eval vm_compute in ("<<<M4075>>>" ++ check (runes_of_ascii "root packet Foo {
-}
+    A
 
-options {
-    // a // b
-    tag = """";
-    u8x = zchar[0]
-}")).
-Eval vm_compute in ("<<<M2988>>>" ++ check (runes_of_ascii "packet A { Inner { match k as n { [1,22,007,4,5,66,7,8,9,10,11] : B, }, }, }")).
-Eval vm_compute in ("<<<M702>>>" ++ check (runes_of_ascii "// packet A { u8 x, }
-options{u
-=string ;chars=
-""" ++ [128512]%N ++ runes_of_ascii """ ; MetaDataX =false }
-")).
-Eval vm_compute in ("<<<M3413>>>" ++ check (runes_of_ascii "MetaData _x { zchar[ 4294967296 ] lengthOf `// not a comment` , } // c
-")).
-Eval vm_compute in ("<<<M3407>>>" ++ check (runes_of_ascii "MetaData _x { zchar[ 4294967296 ] lengthOf // c
-`// not a comment` , }")).
-Eval vm_compute in ("<<<M2167>>>" ++ check (runes_of_ascii "root
-    // `tick` ""quote"" 'q'
-    packet As { { trueish Packet , }
-")).
-Eval vm_compute in ("<<<M3378>>>" ++ check (runes_of_ascii "// top
-packet
-    // c0
-lengthOf
-    // c1
 {
-    // c2
-}
-    // c3
-")).
-Eval vm_compute in ("<<<M428>>>" ++ check (runes_of_ascii "options{u128=
-    '0' ; u128 = ' ' Logon=char[] A=
-    char[];	}
-")).
-Eval vm_compute in ("<<<M2179>>>" ++ check (runes_of_ascii "root
-    // `tick` ""quote"" 'q'
-    packet As { trueish u64 , }
-")).
-Eval vm_compute in ("<<<M2863>>>" ++ check (runes_of_ascii "packet A {
+match
+k
+
+    as
+	n {
+
+[""a"",
+""bb""
+,
+	""c c"" ] :B,
+    2	:
+C  },
+} ")).
+Eval vm_compute in ("<<<M1974>>>" ++ check (runes_of_ascii "root
+packet crc
+    ; f32a @calculatedFrom( """ ++ [233]%N ++ runes_of_ascii "t" ++ [233]%N ++ runes_of_ascii """ )
+    `say ""hi""`, lengthOf `` ,  }")).
+Eval vm_compute in ("<<<M2951>>>" ++ check (runes_of_ascii "packet A {
   match k as n {
-    [1, 22] : B,
+    [1, 22, 007, 4, 5, 66, 7, 8, 9] : B
     2 : C
   },
 }")).
-Eval vm_compute in ("<<<M2662>>>" ++ check (runes_of_ascii "options { a = true; b = false; c = '0'; d = ""s""; e = 007; }")).
+Eval vm_compute in ("<<<M3333>>>" ++ check (runes_of_ascii "packet o { @tag( 42 ) repeat x { char[ 0123456789 ] i64_ , } , } options { }
+// c
+")).
+Eval vm_compute in ("<<<M3312>>>" ++ check (runes_of_ascii "packet o { @tag( 42 ) repeat x { char[ // c
+0123456789 ] i64_ , } , } options { }")).
+Eval vm_compute in ("<<<M2046>>>" ++ check (runes_of_ascii "root
+packet crc
+    { f32a @calculatedFrom( """ ++ [233]%N ++ runes_of_ascii "t" ++ [233]%N ++ runes_of_ascii """ )
+    `say ""hi""`, a" ++ [769]%N ++ runes_of_ascii "b `` ,  }")).
+Eval vm_compute in ("<<<M2693>>>" ++ check (runes_of_ascii "true i16 i8 007 ( `{ , }` matchKey u32 65535 packet packet '\x00' ""`tick`"" u64")).
+Eval vm_compute in ("<<<M2902>>>" ++ check (runes_of_ascii "packet A {
+  match k as n {
+    [1, ""bb"", 007, ""d"", 5] : B,
+    2 : C
+  },
+}")).
+Eval vm_compute in ("<<<M41>>>" ++ check (runes_of_ascii "MetaData// " ++ [128512]%N ++ runes_of_ascii " emoji
+charz
+{zchar[
+    42] packetx
+    `crlf
+line` , } 	 ")).
+Eval vm_compute in ("<<<M2875>>>" ++ check (runes_of_ascii "packet A {
+  match k as n {
+    [""a"", ""bb"", ""c c""] : B
+    2 : C
+  },
+}")).
+Eval vm_compute in ("<<<M3404>>>" ++ check (runes_of_ascii "MetaData _x { zchar[ 4294967296
+// c
+] lengthOf `// not a comment` , }")).
+Eval vm_compute in ("<<<M884>>>" ++ check (runes_of_ascii "packet trueish { repeat rootA
+    // " ++ [128512]%N ++ runes_of_ascii " emoji
+    ,i64_
+lengthOf,
+}
+")).
+Eval vm_compute in ("<<<M2206>>>" ++ check (runes_of_ascii "root
+    // `tick` ""quote"" 'q'
+    packet As { trueish P" ++ [127]%N ++ runes_of_ascii "acket , }
+")).
+Eval vm_compute in ("<<<M3870>>>" ++ check (runes_of_ascii "packet A {
+    match k as n {
+        1 : B,
+        // d
+    },
+}")).
+Eval vm_compute in ("<<<M496>>>" ++ check (runes_of_ascii "packet T{	}
+root
+packet crc // `tick` ""quote"" 'q'
+{ u8 Z9_, }")).
+Eval vm_compute in ("<<<M2726>>>" ++ check (runes_of_ascii "@lengthOf( i16 } i16 packet rootA = false packet , u32 """ ++ [28040; 24687]%N ++ runes_of_ascii """ {")).
+Eval vm_compute in ("<<<M3176>>>" ++ check (runes_of_ascii "packet A { @leftPad() char[4] x, @rightPad( ) zchar[2] y, }")).
 Eval vm_compute in ("<<<M1943>>>" ++ check (runes_of_ascii "
 packet	As { @calculatedFrom(//x
 ""{,}""	)# lengthOf , } 	 ")).
-Eval vm_compute in ("<<<M632>>>" ++ check (runes_of_ascii "MetaData charz {
-    char[7] body `tab	here` // " ++ [27880; 37322]%N ++ runes_of_ascii "
-, }
+Eval vm_compute in ("<<<M29>>>" ++ check (runes_of_ascii "packet chars// packet A { u8 x, }
+{} packet u {
+}
+//	t
 ")).
 Eval vm_compute in ("<<<M1900>>>" ++ check (runes_of_ascii "
 packet	 { @calculatedFrom(//x
 ""{,}""	)lengthOf , } 	 ")).
-Eval vm_compute in ("<<<M4483>>>" ++ check (runes_of_ascii "root packet u {
-    Foo int,// `tick` ""quote"" 'q'
-}")).
-Eval vm_compute in ("<<<M2397>>>" ++ check (runes_of_ascii "MetaData A
+Eval vm_compute in ("<<<M1745>>>" ++ check (runes_of_ascii "options uint32 }options {  } // `tick` ""quote"" 'q'")).
+Eval vm_compute in ("<<<M2415>>>" ++ check (runes_of_ascii "MetaData A
 {
 i64
-chars	, } <// `tick` ""quote"" 'q'")).
-Eval vm_compute in ("<<<M959>>>" ++ check (runes_of_ascii "packet i8i8 {
-    } packet asx	{ uint8	pack, }
-")).
-Eval vm_compute in ("<<<M1778>>>" ++ check (runes_of_ascii "options { }options {  } // `tick` ""quote"" '<q'")).
-Eval vm_compute in ("<<<M489>>>" ++ check (runes_of_ascii "// packet A { u8 x, }
- // `tick` ""quote"" 'q'")).
-Eval vm_compute in ("<<<M3587>>>" ++ check (runes_of_ascii "MetaData
+chars	, } // `tick` ""qu?ote"" 'q'")).
+Eval vm_compute in ("<<<M1748>>>" ++ check (runes_of_ascii "options { } }options {  } // `tick` ""quote"" 'q'")).
+Eval vm_compute in ("<<<M1772>>>" ++ check (runes_of_ascii "options { }options {  } // `tick` ""quote"" " ++ [65279]%N ++ runes_of_ascii "'q'")).
+Eval vm_compute in ("<<<M4056>>>" ++ check (runes_of_ascii "packet A {
+    u8 x `a
+        
+        b`,
+}")).
+Eval vm_compute in ("<<<M2741>>>" ++ check (runes_of_ascii ": f32 false string u32 ; `crlf
+line` ""{,}""")).
+Eval vm_compute in ("<<<M2127>>>" ++ check (runes_of_ascii "MetaData x
+{// " ++ [128512]%N ++ runes_of_ascii " emoji
+i16 stringy root }")).
+Eval vm_compute in ("<<<M2607>>>" ++ check (runes_of_ascii "packet A { match k as n { [1 2] : B }, }")).
+Eval vm_compute in ("<<<M4525>>>" ++ check (runes_of_ascii "
 
-    M { }// c
-	  options{
-
-}
-")).
-Eval vm_compute in ("<<<M2623>>>" ++ check (runes_of_ascii "packet A { @leftPad('0' '0') char[2] x, }")).
-Eval vm_compute in ("<<<M2609>>>" ++ check (runes_of_ascii "packet A { match k as n { [[1]] : B }, }")).
-Eval vm_compute in ("<<<M794>>>" ++ check (runes_of_ascii "// " ++ [128512]%N ++ runes_of_ascii " emoji
-options { MetaDataX=string }")).
+  options  { string_ 
+= //	t
+		007
+	}")).
 Eval vm_compute in ("<<<M2121>>>" ++ check (runes_of_ascii "MetaData x
 {// " ++ [128512]%N ++ runes_of_ascii " emoji
 i16 , stringy }")).
-Eval vm_compute in ("<<<M2729>>>" ++ check (runes_of_ascii "MetaData match @lengthOf( match 007 )")).
-Eval vm_compute in ("<<<M1651>>>" ++ check (runes_of_ascii "root packet /// triple
-rootA {	i32")).
-Eval vm_compute in ("<<<M3999>>>" ++ check (runes_of_ascii "packet A {
-    u8 x `d 	`,// c 	
-}")).
-Eval vm_compute in ("<<<M3459>>>" ++ check (runes_of_ascii "root packet P {
-    string s,
-}
-")).
-Eval vm_compute in ("<<<M2101>>>" ++ check (runes_of_ascii " x
+Eval vm_compute in ("<<<M2669>>>" ++ check (runes_of_ascii "options { a = 1; } options { a = 1; }")).
+Eval vm_compute in ("<<<M2114>>>" ++ check (runes_of_ascii "MetaData x
 {// " ++ [128512]%N ++ runes_of_ascii " emoji
-i16 stringy , }")).
-Eval vm_compute in ("<<<M1641>>>" ++ check (runes_of_ascii "root packet /// triple
-rootA")).
-Eval vm_compute in ("<<<M4148>>>" ++ check (runes_of_ascii "  packet
-Packet
-
-    {}
-
-")).
-Eval vm_compute in ("<<<M820>>>" ++ check (runes_of_ascii "MetaData repeatCount
-{
-}
-")).
-Eval vm_compute in ("<<<M2091>>>" ++ check (runes_of_ascii "MetaData A { u64 pack~, }")).
-Eval vm_compute in ("<<<M2053>>>" ++ check (runes_of_ascii "MetaData { A u64 pack, }")).
+ stringy , }")).
+Eval vm_compute in ("<<<M2048>>>" ++ check (runes_of_ascii "MetaData MetaData A { u64 pack, }")).
+Eval vm_compute in ("<<<M4463>>>" ++ check (runes_of_ascii "packet A {
+    u8 x `d" ++ [133]%N ++ runes_of_ascii "`,// c" ++ [133]%N ++ runes_of_ascii "
+}")).
+Eval vm_compute in ("<<<M2842>>>" ++ check (runes_of_ascii "f(ukmpH3;(""_fVi)^D86>RRY !%8T?")).
+Eval vm_compute in ("<<<M2725>>>" ++ check (runes_of_ascii ", packet as MetaData ] int8 (")).
+Eval vm_compute in ("<<<M266>>>" ++ check (runes_of_ascii "options
+{Packet=
+char[] }")).
+Eval vm_compute in ("<<<M2057>>>" ++ check (runes_of_ascii "MetaData A { { u64 pack, }")).
+Eval vm_compute in ("<<<M2097>>>" ++ check (runes_of_ascii "MetaData A { |u64 pack, }")).
+Eval vm_compute in ("<<<M2068>>>" ++ check (runes_of_ascii "MetaData A { u64 ,pack }")).
 Eval vm_compute in ("<<<M127>>>" ++ check (runes_of_ascii "packet Foo{/// triple
 }")).
-Eval vm_compute in ("<<<M1358>>>" ++ check (runes_of_ascii "root packet Logon {
-}")).
-Eval vm_compute in ("<<<M2743>>>" ++ check (runes_of_ascii "#" ++ [65533]%N ++ runes_of_ascii "k" ++ [65533; 4]%N ++ runes_of_ascii "M" ++ [1580]%N ++ runes_of_ascii "!" ++ [65533]%N ++ runes_of_ascii "W" ++ [65533]%N ++ runes_of_ascii "3J" ++ [14]%N ++ runes_of_ascii "fa" ++ [65533]%N ++ runes_of_ascii "R" ++ [65533]%N ++ runes_of_ascii ")D")).
-Eval vm_compute in ("<<<M131>>>" ++ check (runes_of_ascii "  packet float { }
+Eval vm_compute in ("<<<M1218>>>" ++ check (runes_of_ascii "packet
+    Packet {
+}
 ")).
-Eval vm_compute in ("<<<M987>>>" ++ check (runes_of_ascii "MetaData asx	{ }
-
-")).
-Eval vm_compute in ("<<<M3102>>>" ++ check (runes_of_ascii "// c" ++ [8233]%N ++ runes_of_ascii "
+Eval vm_compute in ("<<<M2821>>>" ++ check (runes_of_ascii "as u32 , ) as options")).
+Eval vm_compute in ("<<<M538>>>" ++ check (runes_of_ascii "options{
+    } //	t")).
+Eval vm_compute in ("<<<M567>>>" ++ check (runes_of_ascii "root packet a1 { }")).
+Eval vm_compute in ("<<<M3092>>>" ++ check (runes_of_ascii "// c" ++ [8202]%N ++ runes_of_ascii "
 packet A {
 }")).
-Eval vm_compute in ("<<<M2653>>>" ++ check (runes_of_ascii "options { a = 1 }")).
-Eval vm_compute in ("<<<M2047>>>" ++ check (runes_of_ascii " A { u64 pack, }")).
-Eval vm_compute in ("<<<M3157>>>" ++ check (runes_of_ascii "
+Eval vm_compute in ("<<<M2630>>>" ++ check (runes_of_ascii "packet A { } root")).
+Eval vm_compute in ("<<<M912>>>" ++ check (runes_of_ascii "//
+packet crc{ }")).
+Eval vm_compute in ("<<<M3156>>>" ++ check (runes_of_ascii "packet A {
+}
 
-  packet A {}")).
-Eval vm_compute in ("<<<M1970>>>" ++ check (runes_of_ascii "root
-packet")).
-Eval vm_compute in ("<<<M2683>>>" ++ check (runes_of_ascii "// a
-// b
+
 ")).
-Eval vm_compute in ("<<<M2424>>>" ++ check (runes_of_ascii "char[ ]")).
-Eval vm_compute in ("<<<M2555>>>" ++ check (runes_of_ascii "// " ++ [233]%N ++ runes_of_ascii "
-" ++ [21517]%N)).
-Eval vm_compute in ("<<<M2724>>>" ++ check (runes_of_ascii "d=hM_")).
-Eval vm_compute in ("<<<M2498>>>" ++ check (runes_of_ascii "// x")).
-Eval vm_compute in ("<<<M2521>>>" ++ check (runes_of_ascii "`\`")).
-Eval vm_compute in ("<<<M2518>>>" ++ check (runes_of_ascii "`a")).
-Eval vm_compute in ("<<<M2702>>>" ++ check (runes_of_ascii "{")).
+Eval vm_compute in ("<<<M2118>>>" ++ check (runes_of_ascii "MetaData x
+{")).
+Eval vm_compute in ("<<<M2691>>>" ++ check ([65533; 65533]%N ++ runes_of_ascii "m" ++ [65533; 65533]%N ++ runes_of_ascii "``" ++ [65533; 65533; 65533]%N)).
+Eval vm_compute in ("<<<M2459>>>" ++ check (runes_of_ascii "packets")).
+Eval vm_compute in ("<<<M38>>>" ++ check (runes_of_ascii "
+ 	 ")).
+Eval vm_compute in ("<<<M3080>>>" ++ check (runes_of_ascii "// c" ++ [5760]%N)).
+Eval vm_compute in ("<<<M2523>>>" ++ check (runes_of_ascii "12ab")).
+Eval vm_compute in ("<<<M2531>>>" ++ check (runes_of_ascii "a_b")).
+Eval vm_compute in ("<<<M2553>>>" ++ check ([233]%N ++ runes_of_ascii "a")).
